@@ -1,4 +1,6 @@
 import DFV.Lemmas.C07Ex
+import DFV.Lemmas.C07Comp
+import DFV.Lemmas.C07SubsOk
 /-!
 # C07 — sub-selection, padding and resampling keep every value at its physical position
 
@@ -8,6 +10,14 @@ Property theorems about the code-shaped model `DFV/Model/C07.lean` of `Mesh.sel`
 about values is an equation between `get`s of the result and of the source, so it holds
 verbatim for any value type.  Dimension count, cell counts, selection coordinates, boxes,
 pad widths and target resolutions are universally quantified.  Arithmetic is exact (`Rat`).
+
+Second half of the file: what the constructor call at the end of every operation does with
+component count, unit, labels and mapping (`op_meta` …), invariants by induction over histories
+of operations (`history_meta`), well-formedness of every result (`op_wf`), subregions and
+boundary condition of the result mesh (`op_subs_bc`, `sel_plane_subs`, `sel_range_subs`),
+acceptance on meshes with subregions, composition laws and round trips (`sel_range_range`,
+`sel_plane_comm`, `getitem_getitem`, `pad_crop_roundtrip`, `resample_source_cell`, …) and further
+refusals.
 -/
 namespace DFV.C07
 open DFV DFV.Mesh
@@ -1025,6 +1035,71 @@ theorem sel_range_accepts (f : Fld) (hf : FldWF f) (hmeta : metaOk f = true) (hs
   rw [hg]
   exact ⟨_, rfl⟩
 
+/-- In-region plane selections are accepted on meshes WITH subregions too, as long as the
+subregions consist of whole cells (which the subregion setter of the mesh enforces): `Mesh.sel`
+and `Field.sel` succeed for every coordinate inside the region — the re-built mesh passes the
+subregion setter's three tests (inside the region, cell size divides, faces aligned) for every
+surviving subregion. -/
+theorem sel_plane_accepts_subs (f : Fld) (hf : FldWF f) (hmeta : metaOk f = true)
+    (hsubs : ∀ p, p ∈ f.mesh.subs → ∃ k1 k2, SubAligned f.mesh p.2 k1 k2) (h2 : 2 ≤ f.mesh.ndim)
+    (dim : String) (a : Nat) (hd : f.mesh.region.dim2index dim = .ok a) (x : Rat)
+    (h1 : f.mesh.region.lo a ≤ x) (hx2 : x ≤ f.mesh.region.hi a) :
+    (∃ g, selMesh f.mesh dim (.point x) = .ok g) ∧ ∃ g, selFld f dim (.point x) = .ok (.field g) := by
+  obtain ⟨hinv, hds, hvs⟩ := hf
+  have ha := dim2index_ndim hinv hd
+  have hconv := (selConvert_point f.mesh hinv dim a hd x h1 hx2).1
+  have hp := selPlaneMesh_ok_subs f.mesh hinv a ha h2
+    (f.mesh.centreAx a ((f.mesh.indexAx a x : Nat) : Int)) hsubs
+  obtain ⟨gm, hgm, hgn⟩ : ∃ gm, selPlaneMesh f.mesh a (f.mesh.centreAx a ((f.mesh.indexAx a x : Nat) : Int)) = .ok gm ∧
+      gm.n = removeAt f.mesh.n a := ⟨_, hp, rfl⟩
+  have hmesh : selMesh f.mesh dim (.point x) = .ok gm := by
+    unfold selMesh; rw [hconv]; exact hgm
+  refine ⟨⟨_, hmesh⟩, ?_⟩
+  unfold selFld
+  rw [hconv, hmesh]
+  simp only
+  obtain ⟨g, hg⟩ := mkFld_ok gm f
+    (selData f.data a (.plane (f.mesh.centreAx a ((f.mesh.indexAx a x : Nat) : Int)) (f.mesh.indexAx a x)))
+    (selData f.valid a (.plane (f.mesh.centreAx a ((f.mesh.indexAx a x : Nat) : Int)) (f.mesh.indexAx a x)))
+    (by show removeAt f.data.shape a = gm.n; rw [hds, hgn])
+    (by show removeAt f.valid.shape a = gm.n; rw [hvs, hgn]) hmeta
+  rw [hg]
+  exact ⟨_, rfl⟩
+
+/-- In-region range selections are accepted on meshes with subregions made of whole cells. -/
+theorem sel_range_accepts_subs (f : Fld) (hf : FldWF f) (hmeta : metaOk f = true)
+    (hsubs : ∀ p, p ∈ f.mesh.subs → ∃ k1 k2, SubAligned f.mesh p.2 k1 k2)
+    (dim : String) (a : Nat) (hd : f.mesh.region.dim2index dim = .ok a) (x y : Rat)
+    (h1 : f.mesh.region.lo a ≤ min x y) (h2 : max x y ≤ f.mesh.region.hi a) :
+    (∃ g, selMesh f.mesh dim (.range x y) = .ok g) ∧ ∃ g, selFld f dim (.range x y) = .ok (.field g) := by
+  obtain ⟨hinv, hds, hvs⟩ := hf
+  have ha := dim2index_ndim hinv hd
+  obtain ⟨hconv, hk, hk2⟩ := selConvert_range f.mesh hinv dim a hd x y h1 h2
+  obtain ⟨gm, hgm, hgn⟩ := selRangeMesh_ok_subs f.mesh hinv a ha _ _ hk hk2 hsubs
+  have hmesh : selMesh f.mesh dim (.range x y) = .ok gm := by
+    unfold selMesh; rw [hconv]; exact hgm
+  refine ⟨⟨gm, hmesh⟩, ?_⟩
+  unfold selFld
+  rw [hconv, hmesh]
+  simp only
+  have hsh : f.mesh.indexAx a (max x y) + 1 - f.mesh.indexAx a (min x y)
+      = f.mesh.indexAx a (max x y) - f.mesh.indexAx a (min x y) + 1 := by omega
+  obtain ⟨g, hg⟩ := mkFld_ok gm f
+    (selData f.data a (.range (f.mesh.centreAx a ((f.mesh.indexAx a (min x y) : Nat) : Int))
+      (f.mesh.centreAx a ((f.mesh.indexAx a (max x y) : Nat) : Int))
+      (f.mesh.indexAx a (min x y)) (f.mesh.indexAx a (max x y))))
+    (selData f.valid a (.range (f.mesh.centreAx a ((f.mesh.indexAx a (min x y) : Nat) : Int))
+      (f.mesh.centreAx a ((f.mesh.indexAx a (max x y) : Nat) : Int))
+      (f.mesh.indexAx a (min x y)) (f.mesh.indexAx a (max x y))))
+    (by
+      show setAt f.data.shape a (f.mesh.indexAx a (max x y) + 1 - f.mesh.indexAx a (min x y)) = gm.n
+      rw [hgn, hds, hsh])
+    (by
+      show setAt f.valid.shape a (f.mesh.indexAx a (max x y) + 1 - f.mesh.indexAx a (min x y)) = gm.n
+      rw [hgn, hvs, hsh]) hmeta
+  rw [hg]
+  exact ⟨_, rfl⟩
+
 /-- Every box inside the region is accepted by `mesh[region]` and `field[region]`. -/
 theorem getitem_region_accepts (f : Fld) (hf : FldWF f) (hmeta : metaOk f = true) (item : Region)
     (hbox : BoxIn f.mesh item) (hpm : item.pmax.length = f.mesh.ndim) :
@@ -1146,6 +1221,1164 @@ theorem resample_accepts (f : Fld) (hf : f.mesh.Inv) (hmeta : metaOk f = true) (
   simp only [Bool.not_true, Bool.false_eq_true, if_false]
   exact mkFld_ok _ _ _ _ rfl rfl hmeta
 
+/-! ## Metadata, well-formedness, subregions/boundary condition of the result mesh, histories -/
+
+/-- Metadata rule of every field operation of the property (`Field.sel` with a plane, the
+centre or a range, `field[region]`, `field[name]`, `Field.pad`, `Field.resample`): the result
+lives on exactly the mesh the mesh-level operation returns (`Mesh.sel`, `mesh[item]`, `Mesh.pad`,
+`Mesh(region, n)`); component count and unit are those of the source; labels and mapping are
+what the two constructor setters make of the source's labels and mapping; value array and
+validity mask have the shape of the result mesh. -/
+theorem op_meta (f : Fld) (op : FOp) (g : Fld) (h : applyOp f op = .ok g) :
+    applyMeshOp f.mesh op = .ok g.mesh ∧
+    g.nvdim = f.nvdim ∧ g.unit = f.unit ∧ ctorMeta f = .ok (g.vdims, g.vmap) ∧
+    g.data.shape = g.mesh.n ∧ g.valid.shape = g.mesh.n := by
+  obtain ⟨m, d, v, hm, hc⟩ := applyOp_ctor f op g h
+  obtain ⟨q1, q2, q3, q4, q5, q6, q7, q8⟩ := mkFld_inv _ _ _ _ _ hc
+  exact ⟨by rw [q1]; exact hm, q6, q7, q8, by rw [q2, q1]; exact q4, by rw [q3, q1]; exact q5⟩
+
+/-- The setters spelled out.  Labels: a labelled source hands its labels through; a source
+without labels gets the default labels of its component count (none for a scalar field, `x y z`
+up to three components, `v0 v1 …` beyond).  Mapping: handed through as it is — after a plane
+selection it still names the removed axis — except that the one-entry mapping of an unlabelled
+scalar field is dropped; a non-empty mapping is only accepted if its keys are exactly the labels. -/
+theorem op_labels_rule (f : Fld) (op : FOp) (g : Fld) (h : applyOp f op = .ok g) :
+    ((f.vdims = none ∧ g.vdims = Fld.defaultVdims f.nvdim) ∨ (f.vdims = some [] ∧ g.vdims = none) ∨
+      (∃ x l, f.vdims = some (x :: l) ∧ g.vdims = f.vdims ∧ (x :: l).length = f.nvdim ∧
+        hasDup (x :: l) = false)) ∧
+    ((f.vmap.length = 1 ∧ f.nvdim = 1 ∧ g.vdims = none ∧ g.vmap = []) ∨
+      (g.vmap = f.vmap ∧ (f.vmap = [] ∨ ∃ l, g.vdims = some l ∧ (f.vmap.map (·.1)).isPerm l = true))) := by
+  obtain ⟨_, _, _, hmeta, _, _⟩ := op_meta f op g h
+  obtain ⟨h1, h2⟩ := ctorMeta_inv f _ _ hmeta
+  exact ⟨ctorVdims_rule _ _ _ h1, ctorVmap_rule _ _ _ _ h2⟩
+
+/-- For a field in constructor state (labels and mapping as `Field(...)` leaves them) every
+operation hands labels and mapping through unchanged, and the result is again in constructor
+state. -/
+theorem op_meta_passthrough (f : Fld) (hf : MetaInv f) (op : FOp) (g : Fld) (h : applyOp f op = .ok g) :
+    g.vdims = f.vdims ∧ g.vmap = f.vmap ∧ MetaInv g := by
+  obtain ⟨_, hn, _, hmeta, _, _⟩ := op_meta f op g h
+  unfold MetaInv at hf
+  rw [hf] at hmeta
+  injection hmeta with hmeta
+  injection hmeta with h1 h2
+  refine ⟨h1.symm, h2.symm, ?_⟩
+  unfold MetaInv ctorMeta
+  rw [hn, ← h1, ← h2]
+  exact hf
+
+/-- A field whose labels / mapping the constructor setters refuse (e.g. the state left by
+`field.vdims = []` on a labelled vector field with a mapping: no labels, mapping keys are the
+old labels) is refused by every operation, whatever the request. -/
+theorem op_rejects_bad_meta (f : Fld) (hbad : metaOk f = false) (op : FOp) :
+    ∃ e, applyOp f op = .error e := by
+  cases h : applyOp f op with
+  | error e => exact ⟨e, rfl⟩
+  | ok g =>
+    obtain ⟨_, _, _, hmeta, _, _⟩ := op_meta f op g h
+    rw [(metaOk_of_eq f _ hmeta).1] at hbad
+    cases hbad
+
+/-- Invariant over histories: after any sequence of operations on a field in constructor state,
+component count, unit, labels and mapping are those of the original field, the field is again in
+constructor state, and its arrays have the shape of its mesh (given that of the start field). -/
+theorem history_meta (ops : List FOp) (f : Fld) (hf : MetaInv f)
+    (hs : f.data.shape = f.mesh.n ∧ f.valid.shape = f.mesh.n) (g : Fld) (h : runOps f ops = .ok g) :
+    g.nvdim = f.nvdim ∧ g.unit = f.unit ∧ g.vdims = f.vdims ∧ g.vmap = f.vmap ∧ MetaInv g ∧
+    g.data.shape = g.mesh.n ∧ g.valid.shape = g.mesh.n := by
+  induction ops generalizing f with
+  | nil =>
+    unfold runOps at h
+    injection h with h
+    subst h
+    exact ⟨rfl, rfl, rfl, rfl, hf, hs.1, hs.2⟩
+  | cons op rest ih =>
+    unfold runOps at h
+    split at h
+    · cases h
+    · rename_i g1 hg1
+      obtain ⟨_, a1, a2, _, a5, a6⟩ := op_meta f op g1 hg1
+      obtain ⟨b1, b2, b3⟩ := op_meta_passthrough f hf op g1 hg1
+      obtain ⟨c1, c2, c3, c4, c5, c6, c7⟩ := ih g1 b3 ⟨a5, a6⟩ h
+      exact ⟨by rw [c1, a1], by rw [c2, a2], by rw [c3, b1], by rw [c4, b2], c5, c6, c7⟩
+
+/-- Without the constructor-state assumption on the start field: one operation puts the field
+in constructor state (for a field with at least one component and no empty label list), so after
+any non-empty history labels and mapping are what the setters made of the original ones. -/
+theorem history_meta_first (op : FOp) (ops : List FOp) (f : Fld) (hk : f.nvdim ≠ 0)
+    (hne : f.vdims ≠ some []) (g : Fld) (h : runOps f (op :: ops) = .ok g) :
+    g.nvdim = f.nvdim ∧ g.unit = f.unit ∧ ctorMeta f = .ok (g.vdims, g.vmap) ∧ MetaInv g ∧
+    g.data.shape = g.mesh.n ∧ g.valid.shape = g.mesh.n := by
+  unfold runOps at h
+  split at h
+  · cases h
+  · rename_i g1 hg1
+    obtain ⟨_, a1, a2, a3, a5, a6⟩ := op_meta f op g1 hg1
+    have hinv : MetaInv g1 := ctorMeta_idem f g1 hk hne a3 a1
+    obtain ⟨c1, c2, c3, c4, c5, c6, c7⟩ := history_meta ops g1 hinv ⟨a5, a6⟩ g h
+    exact ⟨by rw [c1, a1], by rw [c2, a2], by rw [c3, c4]; exact a3, c5, c6, c7⟩
+
+/-- Element type of the result's value array: `sel`, `__getitem__` and `pad` never return a
+boolean or integer array (they promote to `float64`, complex stays complex); `resample` keeps
+the kind; applying an operation of the same family again does not change the kind any more. -/
+theorem result_kind (op : OpFam) (k : DKind) :
+    resultKind op (resultKind op k) = resultKind op k ∧
+    (op ≠ .resample → resultKind op k ≠ .bool ∧ resultKind op k ≠ .int ∧
+      (k = .complex ↔ resultKind op k = .complex)) ∧
+    (op = .resample → resultKind op k = k) := by
+  cases op <;> cases k <;> simp [resultKind, asArrayKind]
+
+/-- What the operations do with subregions and boundary condition of the mesh (following the
+code): `field[item]`, `pad` and `resample` return a field on a mesh WITHOUT subregions; the
+boundary condition survives only `pad`; `sel` keeps (clipped) subregions — see `sel_plane_subs`,
+`sel_range_subs` — but drops the boundary condition. -/
+theorem op_subs_bc (f : Fld) (op : FOp) (g : Fld) (h : applyOp f op = .ok g) :
+    (∀ item, op = .get item → g.mesh.subs = [] ∧ g.mesh.bc = "") ∧
+    (∀ pw mode, op = .pad pw mode → g.mesh.subs = [] ∧ g.mesh.bc = f.mesh.bc.toLower) ∧
+    (∀ n, op = .resample n → g.mesh.subs = [] ∧ g.mesh.bc = "") ∧
+    (∀ dim arg, op = .sel dim arg → g.mesh.bc = "") := by
+  obtain ⟨hm, _⟩ := op_meta f op g h
+  refine ⟨?_, ?_, ?_, ?_⟩
+  · intro item ho; subst ho
+    exact getMesh_bare f.mesh item g.mesh hm
+  · intro pw mode ho; subst ho
+    exact padMesh_bare f.mesh pw g.mesh hm
+  · intro n ho; subst ho
+    obtain ⟨_, _, r3, r4, _⟩ := mkN_inv _ _ _ hm
+    exact ⟨r4, r3⟩
+  · intro dim arg ho; subst ho
+    exact selMesh_bc f.mesh dim arg g.mesh hm
+
+/-- Every operation returns a well-formed field: its mesh satisfies the mesh invariant (positive
+dimension, ordered corners, names/units/counts of matching length, at least one cell per axis)
+and value array and mask have the shape of that mesh — so the pointwise theorems of this file
+chain along histories. -/
+theorem op_wf (f : Fld) (hf : FldWF f) (op : FOp) (hside : OpSide f op) (g : Fld)
+    (h : applyOp f op = .ok g) : FldWF g := by
+  obtain ⟨hm, _, _, _, s1, s2⟩ := op_meta f op g h
+  refine ⟨?_, s1, s2⟩
+  cases op with
+  | sel dim arg =>
+    have hm' : selMesh f.mesh dim arg = .ok g.mesh := hm
+    have hconv : ∃ ai, selConvert f.mesh dim arg = .ok ai := by
+      unfold selMesh at hm'
+      cases hc : selConvert f.mesh dim arg with
+      | error e => rw [hc] at hm'; cases hm'
+      | ok ai => exact ⟨ai, rfl⟩
+    obtain ⟨⟨a, s⟩, hconv⟩ := hconv
+    rcases selConvert_kind f.mesh hf.1 dim arg a s hconv with ⟨c, k, hs, _⟩ | ⟨x, y, harg⟩
+    · subst hs
+      exact (sel_plane_shape f.mesh hf.1 dim arg a c k hconv g.mesh hm').2.2.2.2.2.2
+    · subst harg
+      obtain ⟨_, _, _, _, _, _, _, _, _, _, _, _, _, hinv⟩ := sel_range_shape f.mesh hf.1 dim x y g.mesh hm'
+      exact hinv
+  | get item =>
+    cases item with
+    | region r => exact getRegion_meshInv f.mesh hf.1 r hside g.mesh hm
+    | name s =>
+      obtain ⟨r, k1, k2, hfind, hal, hdims, hunits⟩ := hside
+      obtain ⟨e0, e1, e2, e3⟩ := getName_inv f.mesh hf.1 s r hfind k1 k2 hal g.mesh hm
+      exact inv_of_blocks f.mesh g.mesh hf.1 e1 e2 (by rw [e0]; exact hdims) (by rw [e0]; exact hunits)
+        (by rw [e0]; exact hal.2.1) k1 (fun b => k2 b - k1 b)
+        (fun b hb => by have := (hal.2.2 b hb).1; omega) e3
+  | pad pw mode =>
+    obtain ⟨p1, p2, _, _⟩ := padFld_inv f hf pw hside mode g h
+    exact padMesh_meshInv f.mesh hf.1 pw (fun b _ => (p2 b).1) (fun b _ => (p2 b).2) g.mesh p1
+  | resample n => exact mkN_meshInv f.mesh hf.1 _ g.mesh hm
+
+/-! ## Subregions of a selection -/
+
+/-- Subregions of a plane selection (`Mesh.sel` with a coordinate or none): the result carries,
+in the original order and under the original names, exactly the subregions whose extent along the
+removed axis contains the centre `c` of the selected layer; each has the removed axis taken out
+of its corners (every other axis keeps its extent) and is stored with the names, units and
+tolerance of the result region. -/
+theorem sel_plane_subs (m : Mesh) (hm : m.Inv) (hsub : SubsWF m) (dim : String) (arg : SelArg) (a : Nat)
+    (c : Rat) (k : Nat) (hconv : selConvert m dim arg = .ok (a, .plane c k)) (ha : a < m.ndim)
+    (g : Mesh) (h : selMesh m dim arg = .ok g) :
+    List.Forall₂ (fun q p => q.1 = p.1 ∧ q.2.dims = g.region.dims ∧ q.2.units = g.region.units ∧
+        q.2.tol = g.region.tol ∧ q.2.ndim = m.ndim - 1 ∧ q.2.pmax.length = m.ndim - 1 ∧
+        ∀ b, b < m.ndim - 1 → q.2.lo b = p.2.lo (skip a b) ∧ q.2.hi b = p.2.hi (skip a b))
+      g.subs (m.subs.filter fun p => decide (p.2.lo a ≤ c ∧ c ≤ p.2.hi a)) := by
+  have hp := selMesh_plane_inv m hm dim arg a c k hconv g h
+  unfold selPlaneMesh at hp
+  split at hp
+  · cases hp
+  · rename_i subs hsubs
+    split at hp
+    · cases hp
+    · rename_i r hr
+      unfold mkMesh? at hp
+      split at hp
+      · cases hp
+      · rename_i m0 hm0
+        obtain ⟨g1, _, _, g4⟩ := setSubs_inv m0 subs g hp
+        obtain ⟨c1, _⟩ := mkCell_inv _ _ _ _ hm0
+        rw [g4, List.forall₂_map_left_iff]
+        apply forall2_imp_mem (planeSubs_spec a c m.subs subs hsubs)
+        intro q p hp' ⟨hq1, hq2⟩
+        obtain ⟨s1, s2, s3⟩ := hsub p (List.mem_filter.mp hp').1
+        obtain ⟨e1, e2, e3, e4⟩ := regionMk_none_inv _ _ _ _ hq2
+        have hlen : (removeAt p.2.pmin a).length = m.ndim - 1 := by
+          rw [length_removeAt _ _ (by rw [s1]; exact ha), s1]
+        refine ⟨hq1, by show m0.region.dims = _; rw [g1], by show m0.region.units = _; rw [g1],
+          by show m0.region.tol = _; rw [g1], ?_, ?_, ?_⟩
+        · show q.2.pmin.length = _
+          rw [e3, tab_length, hlen]
+        · show q.2.pmax.length = _
+          rw [e4, tab_length, hlen]
+        · intro b hb
+          have hs := skip_lt a b m.ndim ha hb
+          have hle := s3 (skip a b) hs
+          constructor
+          · show q.2.pmin.getD b 0 = _
+            rw [e3, getD_tab _ _ _ _ (by rw [hlen]; exact hb), getD_removeAt, getD_removeAt]
+            exact min_eq_left hle
+          · show q.2.pmax.getD b 0 = _
+            rw [e4, getD_tab _ _ _ _ (by rw [hlen]; exact hb), getD_removeAt, getD_removeAt]
+            exact max_eq_right hle
+
+/-- In cells: a subregion made of the whole cells `s₁ … s₂-1` along the removed axis contains
+the centre of the selected layer `k` exactly when `s₁ ≤ k < s₂`. -/
+theorem plane_sub_kept_iff (L c : Rat) (hc : 0 < c) (k s1 s2 : Nat) :
+    (L + (s1 : Rat) * c ≤ L + ((k : Rat) + 1 / 2) * c ∧ L + ((k : Rat) + 1 / 2) * c ≤ L + (s2 : Rat) * c)
+      ↔ (s1 ≤ k ∧ k < s2) := by
+  constructor
+  · rintro ⟨h1, h2⟩
+    have a1 : (s1 : Rat) < (k : Rat) + 1 := by
+      by_contra hcon; rw [not_lt] at hcon
+      have := mul_le_mul_of_nonneg_right hcon hc.le; nlinarith
+    have a2 : (k : Rat) < (s2 : Rat) := by
+      by_contra hcon; rw [not_lt] at hcon
+      have := mul_le_mul_of_nonneg_right hcon hc.le; nlinarith
+    have n1 : s1 < k + 1 := by exact_mod_cast a1
+    have n2 : k < s2 := by exact_mod_cast a2
+    omega
+  · rintro ⟨h1, h2⟩
+    have a1 : (s1 : Rat) ≤ (k : Rat) := by exact_mod_cast h1
+    have a2 : (k : Rat) + 1 ≤ (s2 : Rat) := by exact_mod_cast h2
+    constructor <;> nlinarith
+
+/-- Subregions of a range selection: the result carries, in the original order and under the
+original names, exactly the subregions that overlap the kept slab `[g.lo a, g.hi a]` by more
+than half a cell (subregions consist of whole cells: a smaller overlap is a rounding artefact at
+a shared face); each is clipped to the slab along the selection axis — `[max(lo, s.lo),
+min(hi, s.hi)]` — keeps its extent on every other axis, and is stored with the names, units and
+tolerance of the result region. -/
+theorem sel_range_subs (m : Mesh) (hm : m.Inv) (hsub : SubsWF m) (dim : String) (x y : Rat) (g : Mesh)
+    (h : selMesh m dim (.range x y) = .ok g) :
+    ∃ a, m.region.dim2index dim = .ok a ∧
+      List.Forall₂ (fun q p => q.1 = p.1 ∧ q.2.dims = g.region.dims ∧ q.2.units = g.region.units ∧
+          q.2.tol = g.region.tol ∧ q.2.ndim = m.ndim ∧ q.2.pmax.length = m.ndim ∧
+          q.2.lo a = max (g.region.lo a) (p.2.lo a) ∧ q.2.hi a = min (g.region.hi a) (p.2.hi a) ∧
+          ∀ b, b < m.ndim → b ≠ a → q.2.lo b = p.2.lo b ∧ q.2.hi b = p.2.hi b)
+        g.subs (m.subs.filter fun p => decide (p.2.lo a < g.region.hi a - m.cellAt a / 2 ∧
+          g.region.lo a < p.2.hi a - m.cellAt a / 2)) := by
+  obtain ⟨a, hd, _, _, _, _, _, _, glo, ghi, _, _, _, _⟩ := sel_range_shape m hm dim x y g h
+  refine ⟨a, hd, ?_⟩
+  have ha := dim2index_ndim hm hd
+  have hc := inv_cell_pos hm ha
+  unfold selMesh at h
+  split at h
+  · cases h
+  · rename_i ai hconv
+    obtain ⟨a', s⟩ := ai
+    obtain ⟨hd', b1, b2, hs⟩ := selConvert_range_inv m hm dim x y a' s hconv
+    rw [hd] at hd'; injection hd' with hd'; subst hd'
+    subst hs
+    have hmm : min x y ≤ max x y := le_trans (min_le_left x y) (le_max_left x y)
+    have hk := indexAx_mono m a _ _ hc hmm
+    have hkr : (m.indexAx a (min x y) : Rat) ≤ (m.indexAx a (max x y) : Rat) := by exact_mod_cast hk
+    have hlo : m.centreAx a ((m.indexAx a (min x y) : Nat) : Int) - m.cellAt a / 2 = g.region.lo a := by
+      rw [glo, centreAx_cast]; ring
+    have hhi : m.centreAx a ((m.indexAx a (max x y) : Nat) : Int) + m.cellAt a / 2 = g.region.hi a := by
+      rw [ghi, centreAx_cast]; ring
+    have hlh : g.region.lo a ≤ g.region.hi a := by rw [glo, ghi]; nlinarith
+    have hp : selRangeMesh m a (m.centreAx a ((m.indexAx a (min x y) : Nat) : Int))
+        (m.centreAx a ((m.indexAx a (max x y) : Nat) : Int)) = .ok g := h
+    unfold selRangeMesh at hp
+    rw [hlo, hhi] at hp
+    split at hp
+    · cases hp
+    · rename_i subs hsubs
+      split at hp
+      · cases hp
+      · rename_i r hr
+        unfold mkMesh? at hp
+        split at hp
+        · cases hp
+        · rename_i m0 hm0
+          obtain ⟨g1, _, _, g4⟩ := setSubs_inv m0 subs g hp
+          rw [g4, List.forall₂_map_left_iff]
+          apply forall2_imp_mem (rangeSubs_spec a _ _ _ m.subs subs hsubs)
+          intro q p hp' ⟨hq1, hq2⟩
+          obtain ⟨hmem, hkeep⟩ := List.mem_filter.mp hp'
+          rw [decide_eq_true_iff] at hkeep
+          obtain ⟨s1, s2, s3⟩ := hsub p hmem
+          obtain ⟨e1, e2, e3, e4⟩ := regionMk_none_inv _ _ _ _ hq2
+          have hlen : (setAt p.2.pmin a (max (g.region.lo a) (p.2.lo a))).length = m.ndim := by
+            rw [length_setAt, s1]
+          have hord : max (g.region.lo a) (p.2.lo a) ≤ min (g.region.hi a) (p.2.hi a) := by
+            have := s3 a ha
+            apply max_le <;> apply le_min <;> linarith
+          refine ⟨hq1, by show m0.region.dims = _; rw [g1], by show m0.region.units = _; rw [g1],
+            by show m0.region.tol = _; rw [g1], ?_, ?_, ?_, ?_, ?_⟩
+          · show q.2.pmin.length = _
+            rw [e3, tab_length, hlen]
+          · show q.2.pmax.length = _
+            rw [e4, tab_length, hlen]
+          · show q.2.pmin.getD a 0 = _
+            rw [e3, getD_tab _ _ _ _ (by rw [hlen]; exact ha), getD_setAt_eq _ _ _ _ (by rw [s1]; exact ha),
+              getD_setAt_eq _ _ _ _ (by rw [s2]; exact ha)]
+            exact min_eq_left hord
+          · show q.2.pmax.getD a 0 = _
+            rw [e4, getD_tab _ _ _ _ (by rw [hlen]; exact ha), getD_setAt_eq _ _ _ _ (by rw [s1]; exact ha),
+              getD_setAt_eq _ _ _ _ (by rw [s2]; exact ha)]
+            exact max_eq_right hord
+          · intro b hb hba
+            have hle := s3 b hb
+            constructor
+            · show q.2.pmin.getD b 0 = _
+              rw [e3, getD_tab _ _ _ _ (by rw [hlen]; exact hb), getD_setAt_ne _ _ _ _ _ hba,
+                getD_setAt_ne _ _ _ _ _ hba]
+              exact min_eq_left hle
+            · show q.2.pmax.getD b 0 = _
+              rw [e4, getD_tab _ _ _ _ (by rw [hlen]; exact hb), getD_setAt_ne _ _ _ _ _ hba,
+                getD_setAt_ne _ _ _ _ _ hba]
+              exact max_eq_right hle
+
+/-- In cells: for a subregion made of the whole cells `s₁ … s₂-1` and a selection keeping cells
+`k₁ … k₂`, the clipped extent is the common cells `max(k₁,s₁) … min(k₂+1,s₂)-1`. -/
+theorem range_sub_clip_cells (L c : Rat) (hc : 0 < c) (k1 k2 s1 s2 : Nat) :
+    max (L + (k1 : Rat) * c) (L + (s1 : Rat) * c) = L + ((max k1 s1 : Nat) : Rat) * c ∧
+    min (L + ((k2 : Rat) + 1) * c) (L + (s2 : Rat) * c) = L + ((min (k2 + 1) s2 : Nat) : Rat) * c := by
+  constructor
+  · rcases le_total k1 s1 with h | h
+    · have hr : (k1 : Rat) ≤ (s1 : Rat) := by exact_mod_cast h
+      rw [Nat.max_eq_right h, max_eq_right (by nlinarith)]
+    · have hr : (s1 : Rat) ≤ (k1 : Rat) := by exact_mod_cast h
+      rw [Nat.max_eq_left h, max_eq_left (by nlinarith)]
+  · rcases le_total (k2 + 1) s2 with h | h
+    · have hr : (k2 : Rat) + 1 ≤ (s2 : Rat) := by exact_mod_cast h
+      rw [Nat.min_eq_left h, min_eq_left (by nlinarith)]; push_cast; ring
+    · have hr : (s2 : Rat) ≤ (k2 : Rat) + 1 := by exact_mod_cast h
+      rw [Nat.min_eq_right h, min_eq_right (by nlinarith)]
+
+/-! ## Composition laws and round trips -/
+
+/-- `field[region]` for a box made of whole cells `k₁ … k₂-1` of the field's mesh: the result
+mesh is exactly the box (same corners, `k₂ - k₁` cells per axis, names, units and tolerance of
+the source, no boundary condition, no subregions) and result cell `j` holds value and validity
+of source cell `k₁ + j`. -/
+theorem getitem_aligned_pointwise (f : Fld) (hf : FldWF f) (item : Region) (k1 k2 : Nat → Nat)
+    (hal : SubAligned f.mesh item k1 k2) (g : Fld) (h : getItem f (.region item) = .ok g) :
+    (∀ a, a < f.mesh.ndim → g.mesh.region.lo a = item.lo a ∧ g.mesh.region.hi a = item.hi a ∧
+      g.mesh.nAt a = k2 a - k1 a) ∧
+    g.mesh.ndim = f.mesh.ndim ∧ g.mesh.n.length = f.mesh.ndim ∧
+    g.mesh.region.pmax.length = f.mesh.ndim ∧
+    g.mesh.region.dims = f.mesh.region.dims ∧ g.mesh.region.units = f.mesh.region.units ∧
+    g.mesh.region.tol = f.mesh.region.tol ∧ g.mesh.bc = "" ∧ g.mesh.subs = [] ∧
+    ∀ j, inRange g.mesh.n j = true →
+      g.data.get j = f.data.get (tab f.mesh.ndim fun b => k1 b + j.getD b 0) ∧
+      g.valid.get j = f.valid.get (tab f.mesh.ndim fun b => k1 b + j.getD b 0) := by
+  have hbox := boxIn_of_aligned f.mesh hf.1 item k1 k2 hal
+  obtain ⟨hgm, hpt⟩ := getitem_region_pointwise f hf item hbox g h
+  obtain ⟨e1, e2, e3, e4, e5, e6, e7, e8, _⟩ := getRegion_inv f.mesh hf.1 item hbox g.mesh hgm
+  refine ⟨getRegion_aligned_exact f.mesh hf.1 item k1 k2 hal g.mesh hgm, e1, e2, e6, e3, e4, e5, e7, e8, ?_⟩
+  intro j hj
+  obtain ⟨_, p2, p3⟩ := hpt j hj
+  have hidx : (tab f.mesh.ndim fun b => blockLo f.mesh item b + j.getD b 0)
+      = tab f.mesh.ndim fun b => k1 b + j.getD b 0 :=
+    tab_congr _ _ _ (fun b hb => by rw [blockLo_aligned f.mesh hf.1 item k1 k2 hal b hb])
+  rw [hidx] at p2 p3
+  exact ⟨p2, p3⟩
+
+/-- Extracting the whole region is the identity on geometry and content: `field[field.mesh.region]`
+has the same region (corners, names, units, tolerance) and cell counts, and every cell keeps its
+value and validity.  (The boundary condition and the subregions of the mesh are not carried over:
+`Mesh.__getitem__` builds a bare mesh.) -/
+theorem getitem_whole_id (f : Fld) (hf : FldWF f) (g : Fld)
+    (h : getItem f (.region f.mesh.region) = .ok g) :
+    g.mesh.region = f.mesh.region ∧ g.mesh.n = f.mesh.n ∧ g.mesh.bc = "" ∧ g.mesh.subs = [] ∧
+    ∀ j, inRange f.mesh.n j = true → g.data.get j = f.data.get j ∧ g.valid.get j = f.valid.get j := by
+  obtain ⟨a1, a2, a3, a4, a5, a6, a7, a8, a9, a10⟩ :=
+    getitem_aligned_pointwise f hf f.mesh.region _ _ (whole_aligned f.mesh hf.1) g h
+  have hn : g.mesh.n = f.mesh.n := by
+    apply list_ext_getD _ _ 0 (by rw [a3, inv_n_length hf.1])
+    intro b hb
+    have := (a1 b (by omega)).2.2
+    simpa [nAt_def] using this
+  refine ⟨?_, hn, a8, a9, ?_⟩
+  · exact region_ext _ _ a2 (inv_pmax_length hf.1) a4 (fun b hb => (a1 b hb).1) (fun b hb => (a1 b hb).2.1) a5 a6 a7
+  · intro j hj
+    obtain ⟨p2, p3⟩ := a10 j (by rw [hn]; exact hj)
+    have hidx : (tab f.mesh.ndim fun b => 0 + j.getD b 0) = j := by
+      symm
+      apply eq_tab_of_getD _ _ _ 0 (by rw [inRange_length _ _ hj, inv_n_length hf.1])
+      intro b _; omega
+    rw [hidx] at p2 p3
+    exact ⟨p2, p3⟩
+
+/-- Pad / crop round trip, for every padding mode: padding a field and then extracting the
+original region gives back the original field — same region (corners, names, units, tolerance),
+same cell counts, and every cell has its original value and validity.  (As with every
+`__getitem__`, boundary condition and subregions are not carried over.) -/
+theorem pad_crop_roundtrip (f : Fld) (hf : FldWF f) (pw : List PadW) (hnd : (pw.map (·.dim)).Nodup)
+    (mode : PadMode) (g : Fld) (hg : padFld f pw mode = .ok g) (h : Fld)
+    (hh : getItem g (.region f.mesh.region) = .ok h) :
+    h.mesh.region = f.mesh.region ∧ h.mesh.n = f.mesh.n ∧ h.mesh.bc = "" ∧ h.mesh.subs = [] ∧
+    ∀ j, inRange f.mesh.n j = true → h.data.get j = f.data.get j ∧ h.valid.get j = f.valid.get j := by
+  have hgwf := op_wf f hf (.pad pw mode) hnd g hg
+  obtain ⟨p1, p2, _, _⟩ := padFld_inv f hf pw hnd mode g hg
+  have hal := pad_source_aligned f.mesh hf.1 pw (fun b _ => (p2 b).1) (fun b _ => (p2 b).2) g.mesh p1
+  obtain ⟨e1, _, e3, e4, e5, _, _, _⟩ :=
+    padMesh_inv f.mesh hf.1 pw (fun b _ => (p2 b).1) (fun b _ => (p2 b).2) g.mesh p1
+  obtain ⟨a1, a2, a3, a4, a5, a6, a7, a8, a9, a10⟩ :=
+    getitem_aligned_pointwise g hgwf f.mesh.region _ _ hal h hh
+  have hn : h.mesh.n = f.mesh.n := by
+    apply list_ext_getD _ _ 0 (by rw [a3, inv_n_length hf.1, e1])
+    intro b hb
+    have := (a1 b (by omega)).2.2
+    rw [nAt_def] at this
+    rw [this]
+    show _ = f.mesh.nAt b
+    omega
+  refine ⟨?_, hn, a8, a9, ?_⟩
+  · apply region_ext _ _ (by show h.mesh.ndim = f.mesh.ndim; omega) (inv_pmax_length hf.1) (by rw [a4, e1]; rfl)
+      (fun b hb => (a1 b (by show b < g.mesh.ndim; rw [e1]; exact hb)).1)
+      (fun b hb => (a1 b (by show b < g.mesh.ndim; rw [e1]; exact hb)).2.1)
+      (by rw [a5, e3]) (by rw [a6, e4]) (by rw [a7, e5])
+  · intro j hj
+    obtain ⟨q2, q3⟩ := a10 j (by rw [hn]; exact hj)
+    have hjl : j.length = f.mesh.ndim := by rw [inRange_length _ _ hj, inv_n_length hf.1]
+    have hjb : ∀ b, b < f.mesh.ndim → j.getD b 0 < f.mesh.nAt b := fun b hb =>
+      inRange_getD _ _ hj b (by rw [inv_n_length hf.1]; exact hb)
+    obtain ⟨_, r2, r3⟩ := pad_inside_pointwise f hf pw hnd mode g hg
+      (tab g.mesh.ndim fun b => (sumW f.mesh (·.lo) pw b).toNat + j.getD b 0) (by
+        intro b hb
+        rw [getD_tab _ _ _ _ (by rw [e1]; exact hb)]
+        have := hjb b hb
+        omega)
+    have hidx : (tab f.mesh.ndim fun b =>
+        (tab g.mesh.ndim fun b => (sumW f.mesh (·.lo) pw b).toNat + j.getD b 0).getD b 0
+          - (sumW f.mesh (·.lo) pw b).toNat) = j := by
+      symm
+      apply eq_tab_of_getD _ _ _ 0 hjl
+      intro b hb
+      rw [getD_tab _ _ _ _ (by rw [e1]; exact hb)]
+      omega
+    rw [hidx] at r2 r3
+    rw [q2, q3, r2, r3]
+    exact ⟨rfl, rfl⟩
+
+/-- Closed form of nearest-cell resampling for ALL target resolutions (finer, coarser, coprime):
+target cell `j` takes value and validity of the source cell with index
+`⌊(2·j+1)·n / (2·n')⌋` on every axis (`n` source, `n'` target cell count) — the cell containing
+the target cell's centre, written in integer arithmetic. -/
+theorem resample_source_cell (f : Fld) (hf : FldWF f) (n : List Int) (g : Fld) (h : resample f n = .ok g) :
+    ∀ j, inRange g.mesh.n j = true →
+      g.data.get j = f.data.get
+        (tab f.mesh.ndim fun b => ((2 * j.getD b 0 + 1) * f.mesh.nAt b) / (2 * g.mesh.nAt b)) ∧
+      g.valid.get j = f.valid.get
+        (tab f.mesh.ndim fun b => ((2 * j.getD b 0 + 1) * f.mesh.nAt b) / (2 * g.mesh.nAt b)) := by
+  intro j hj
+  obtain ⟨_, p2, p3⟩ := resample_pointwise f hf n g h j hj
+  obtain ⟨r1, _, _, _⟩ := resample_region f n g h
+  have hg := op_wf f hf (.resample n) trivial g h
+  have hgn : g.mesh.ndim = f.mesh.ndim := by unfold Mesh.ndim; rw [r1]
+  have hidx : (tab f.mesh.ndim fun b => f.mesh.indexAx b (g.mesh.centreAx b ((j.getD b 0 : Nat) : Int)))
+      = tab f.mesh.ndim fun b => ((2 * j.getD b 0 + 1) * f.mesh.nAt b) / (2 * g.mesh.nAt b) := by
+    apply tab_congr
+    intro b hb
+    have hjb : j.getD b 0 < g.mesh.nAt b :=
+      inRange_getD _ _ hj b (by rw [inv_n_length hg.1, hgn]; exact hb)
+    exact resample_index f.mesh g.mesh b (inv_n_pos hf.1 hb) (inv_n_pos hg.1 (by omega))
+      (by rw [r1]) (by rw [r1]) (inv_lo_lt_hi hf.1 hb) _ hjb
+  rw [hidx] at p2 p3
+  exact ⟨p2, p3⟩
+
+/-- Refinement by integer factors `r b ≥ 1` per axis: target cell `j` is a copy of source cell
+`j / r` (every source cell is repeated `r` times along each axis). -/
+theorem resample_refine (f : Fld) (hf : FldWF f) (n : List Int) (g : Fld) (h : resample f n = .ok g)
+    (r : Nat → Nat) (hr : ∀ b, b < f.mesh.ndim → 0 < r b ∧ g.mesh.nAt b = r b * f.mesh.nAt b) :
+    ∀ j, inRange g.mesh.n j = true →
+      g.data.get j = f.data.get (tab f.mesh.ndim fun b => j.getD b 0 / r b) ∧
+      g.valid.get j = f.valid.get (tab f.mesh.ndim fun b => j.getD b 0 / r b) := by
+  intro j hj
+  obtain ⟨p2, p3⟩ := resample_source_cell f hf n g h j hj
+  have hidx : (tab f.mesh.ndim fun b => ((2 * j.getD b 0 + 1) * f.mesh.nAt b) / (2 * g.mesh.nAt b))
+      = tab f.mesh.ndim fun b => j.getD b 0 / r b :=
+    tab_congr _ _ _ (fun b hb => by
+      rw [(hr b hb).2]; exact refine_div _ _ _ (hr b hb).1 (inv_n_pos hf.1 hb))
+  rw [hidx] at p2 p3
+  exact ⟨p2, p3⟩
+
+/-- Coarsening by integer factors `r b ≥ 1` per axis: target cell `j` takes the source cell
+`r·j + r/2` — the middle one of the `r` source cells it covers for odd `r`, the upper middle one
+for even `r` (the target centre then lies on a source face, which belongs to the upper cell). -/
+theorem resample_coarsen (f : Fld) (hf : FldWF f) (n : List Int) (g : Fld) (h : resample f n = .ok g)
+    (r : Nat → Nat) (hr : ∀ b, b < f.mesh.ndim → f.mesh.nAt b = r b * g.mesh.nAt b) :
+    ∀ j, inRange g.mesh.n j = true →
+      g.data.get j = f.data.get (tab f.mesh.ndim fun b => r b * j.getD b 0 + r b / 2) ∧
+      g.valid.get j = f.valid.get (tab f.mesh.ndim fun b => r b * j.getD b 0 + r b / 2) := by
+  intro j hj
+  obtain ⟨p2, p3⟩ := resample_source_cell f hf n g h j hj
+  obtain ⟨r1, _, _, _⟩ := resample_region f n g h
+  have hg := op_wf f hf (.resample n) trivial g h
+  have hgn : g.mesh.ndim = f.mesh.ndim := by unfold Mesh.ndim; rw [r1]
+  have hidx : (tab f.mesh.ndim fun b => ((2 * j.getD b 0 + 1) * f.mesh.nAt b) / (2 * g.mesh.nAt b))
+      = tab f.mesh.ndim fun b => r b * j.getD b 0 + r b / 2 :=
+    tab_congr _ _ _ (fun b hb => by
+      rw [hr b hb]; exact coarsen_div _ _ _ (inv_n_pos hg.1 (by omega)))
+  rw [hidx] at p2 p3
+  exact ⟨p2, p3⟩
+
+/-- Refining by integer factors and resampling back to the original cell counts is the identity:
+same region, same counts, every cell keeps value and validity. -/
+theorem resample_refine_back_id (f : Fld) (hf : FldWF f) (n : List Int) (g : Fld)
+    (hg : resample f n = .ok g) (r : Nat → Nat)
+    (hr : ∀ b, b < f.mesh.ndim → 0 < r b ∧ g.mesh.nAt b = r b * f.mesh.nAt b)
+    (k : Fld) (hk : resample g (f.mesh.n.map Int.ofNat) = .ok k) :
+    k.mesh.region = f.mesh.region ∧ k.mesh.n = f.mesh.n ∧
+    ∀ j, inRange f.mesh.n j = true → k.data.get j = f.data.get j ∧ k.valid.get j = f.valid.get j := by
+  have hgwf := op_wf f hf (.resample n) trivial g hg
+  obtain ⟨r1, _, _, _⟩ := resample_region f n g hg
+  obtain ⟨s1, s2, _, _⟩ := resample_region g _ k hk
+  have hgn : g.mesh.ndim = f.mesh.ndim := by unfold Mesh.ndim; rw [r1]
+  have hn : k.mesh.n = f.mesh.n := by
+    rw [s2, List.map_map]
+    have : (Int.toNat ∘ Int.ofNat) = id := by funext k; simp
+    rw [this, List.map_id]
+  refine ⟨by rw [s1, r1], hn, ?_⟩
+  intro j hj
+  have hjl : j.length = f.mesh.ndim := by rw [inRange_length _ _ hj, inv_n_length hf.1]
+  have hjb : ∀ b, b < f.mesh.ndim → j.getD b 0 < f.mesh.nAt b := fun b hb =>
+    inRange_getD _ _ hj b (by rw [inv_n_length hf.1]; exact hb)
+  have hkn : ∀ b, k.mesh.nAt b = f.mesh.nAt b := fun b => by rw [nAt_def, nAt_def, hn]
+  obtain ⟨c2, c3⟩ := resample_coarsen g hgwf _ k hk r (by
+    intro b hb
+    rw [hkn b]; exact (hr b (by omega)).2) j (by rw [hn]; exact hj)
+  rw [hgn] at c2 c3
+  -- the source cell in `g` is in range, and it is a copy of cell `j` of `f`
+  have hin : inRange g.mesh.n (tab f.mesh.ndim fun b => r b * j.getD b 0 + r b / 2) = true := by
+    have hlen : g.mesh.n.length = f.mesh.ndim := by rw [inv_n_length hgwf.1, hgn]
+    apply inRange_of_getD _ _ (by rw [hlen, tab_length])
+    intro b hb
+    rw [hlen] at hb
+    rw [getD_tab _ _ _ _ hb]
+    show _ < g.mesh.nAt b
+    rw [(hr b hb).2]
+    have h1 := hjb b hb
+    have h2 : r b / 2 < r b := Nat.div_lt_self (hr b hb).1 (by omega)
+    calc r b * j.getD b 0 + r b / 2 < r b * j.getD b 0 + r b := by omega
+      _ = r b * (j.getD b 0 + 1) := by ring
+      _ ≤ r b * f.mesh.nAt b := Nat.mul_le_mul_left _ (by omega)
+  obtain ⟨d2, d3⟩ := resample_refine f hf n g hg r hr _ hin
+  have hidx : (tab f.mesh.ndim fun b =>
+      (tab f.mesh.ndim fun b => r b * j.getD b 0 + r b / 2).getD b 0 / r b) = j := by
+    symm
+    apply eq_tab_of_getD _ _ _ 0 hjl
+    intro b hb
+    rw [getD_tab _ _ _ _ hb]
+    have h2 : r b / 2 < r b := Nat.div_lt_self (hr b hb).1 (by omega)
+    rw [Nat.mul_add_div (hr b hb).1, Nat.div_eq_of_lt h2]
+    simp
+  rw [hidx] at d2 d3
+  rw [c2, c3, d2, d3]
+  exact ⟨rfl, rfl⟩
+
+/-- Selecting a range and then a sub-range along the same axis equals selecting the sub-range
+directly: same region (corners, names, units, tolerance), same cell counts, and every cell has
+the same value and validity.  The one exception the code makes is excluded by `hup`: an upper
+bound exactly on the upper face of the first selection belongs to the last kept cell there, but to
+the next cell of the original mesh (a face belongs to the cell above it, except at the region
+boundary). -/
+theorem sel_range_range (f : Fld) (hf : FldWF f) (dim : String) (x y x' y' : Rat) (g h h' : Fld)
+    (hg : selFld f dim (.range x y) = .ok (.field g))
+    (hh : selFld g dim (.range x' y') = .ok (.field h))
+    (hh' : selFld f dim (.range x' y') = .ok (.field h'))
+    (a : Nat) (hd : f.mesh.region.dim2index dim = .ok a)
+    (hup : max x' y' < g.mesh.region.hi a ∨ g.mesh.region.hi a = f.mesh.region.hi a) :
+    h.mesh.region = h'.mesh.region ∧ h.mesh.n = h'.mesh.n ∧
+    ∀ j, inRange h.mesh.n j = true →
+      h.data.get j = h'.data.get j ∧ h.valid.get j = h'.valid.get j := by
+  obtain ⟨hinv, hds, hvs⟩ := hf
+  have ha := dim2index_ndim hinv hd
+  have hc := inv_cell_pos hinv ha
+  -- meshes of the three selections
+  obtain ⟨gm, _, _, hgm, hgc⟩ := selFld_ctor f dim _ g hg
+  obtain ⟨hm, _, _, hhm, hhc⟩ := selFld_ctor g dim _ h hh
+  obtain ⟨hm', _, _, hhm', hhc'⟩ := selFld_ctor f dim _ h' hh'
+  have egm := (mkFld_inv _ _ _ _ _ hgc).1
+  have ehm := (mkFld_inv _ _ _ _ _ hhc).1
+  have ehm' := (mkFld_inv _ _ _ _ _ hhc').1
+  rw [← egm] at hgm; rw [← ehm] at hhm; rw [← ehm'] at hhm'
+  -- first selection
+  obtain ⟨a1, hd1, b1, b2, g1, g2, g3, g4, g5, g6, g7, g8, g9, ginv⟩ :=
+    sel_range_shape f.mesh hinv dim x y g.mesh hgm
+  rw [hd] at hd1; injection hd1 with hd1; subst hd1
+  obtain ⟨_, hk, hk2⟩ := selConvert_range f.mesh hinv dim a hd x y b1 b2
+  have blk : AxisBlock g.mesh f.mesh a a (f.mesh.indexAx a (min x y))
+      (f.mesh.indexAx a (max x y) - f.mesh.indexAx a (min x y) + 1) :=
+    ⟨g5, g7, g8, by omega⟩
+  have hdg : g.mesh.region.dim2index dim = .ok a := by
+    rw [dim2index_congr _ _ g2]; exact hd
+  -- second selection, on g
+  obtain ⟨a2, hd2, c1, c2, s1, s2, s3, s4, s5, s6, s7, s8, s9, sinv⟩ :=
+    sel_range_shape g.mesh ginv dim x' y' h.mesh hhm
+  rw [hdg] at hd2; injection hd2 with hd2; subst hd2
+  -- direct selection, on f
+  obtain ⟨a3, hd3, d1, d2, t1, t2, t3, t4, t5, t6, t7, t8, t9, tinv⟩ :=
+    sel_range_shape f.mesh hinv dim x' y' h'.mesh hhm'
+  rw [hd] at hd3; injection hd3 with hd3; subst hd3
+  have hmm : min x' y' ≤ max x' y' := le_trans (min_le_left _ _) (le_max_left _ _)
+  have i1 : f.mesh.indexAx a (min x' y') = f.mesh.indexAx a (min x y) + g.mesh.indexAx a (min x' y') :=
+    indexAx_block blk (by omega) hc _ c1 (le_trans hmm c2) (by
+      rcases hup with h | h
+      · exact Or.inl (lt_of_le_of_lt hmm h)
+      · exact Or.inr h)
+  have i2 : f.mesh.indexAx a (max x' y') = f.mesh.indexAx a (min x y) + g.mesh.indexAx a (max x' y') :=
+    indexAx_block blk (by omega) hc _ (le_trans c1 hmm) c2 hup
+  have hgk := indexAx_mono g.mesh a _ _ (by rw [g8]; exact hc) hmm
+  have hndh : h.mesh.ndim = h'.mesh.ndim := by rw [s1, t1, g1]
+  have hax : ∀ b, b < h'.mesh.ndim →
+      h.mesh.region.lo b = h'.mesh.region.lo b ∧ h.mesh.region.hi b = h'.mesh.region.hi b ∧
+      h.mesh.nAt b = h'.mesh.nAt b := by
+    intro b hb
+    by_cases hba : b = a
+    · subst hba
+      refine ⟨?_, ?_, ?_⟩
+      · rw [s5, t5, g5, g8, i1]; push_cast; ring
+      · rw [s6, t6, g5, g8, i2]; push_cast; ring
+      · rw [s7, t7, i1, i2]; omega
+    · obtain ⟨u1, u2, u3, _⟩ := s9 b (by rw [g1, ← t1]; exact hb) hba
+      obtain ⟨v1, v2, v3, _⟩ := g9 b (by rw [← t1]; exact hb) hba
+      obtain ⟨w1, w2, w3, _⟩ := t9 b (by rw [← t1]; exact hb) hba
+      exact ⟨by rw [u1, v1, w1], by rw [u2, v2, w2], by rw [u3, v3, w3]⟩
+  have hn : h.mesh.n = h'.mesh.n := by
+    apply list_ext_getD _ _ 0 (by rw [inv_n_length sinv, inv_n_length tinv, hndh])
+    intro b hb
+    exact (hax b (by rw [inv_n_length sinv, hndh] at hb; exact hb)).2.2
+  refine ⟨?_, hn, ?_⟩
+  · exact region_ext _ _ hndh (inv_pmax_length tinv) (by rw [inv_pmax_length sinv]; exact hndh)
+      (fun b hb => (hax b hb).1) (fun b hb => (hax b hb).2.1)
+      (by rw [s2, t2, g2]) (by rw [s3, t3, g3]) (by rw [s4, t4, g4])
+  · intro j hj
+    obtain ⟨a4, hd4, p4⟩ := sel_range_pointwise g ginv dim x' y' h hh
+    rw [hdg] at hd4; injection hd4 with hd4; subst hd4
+    obtain ⟨a5, hd5, p5⟩ := sel_range_pointwise f hinv dim x' y' h' hh'
+    rw [hd] at hd5; injection hd5 with hd5; subst hd5
+    obtain ⟨a6, hd6, p6⟩ := sel_range_pointwise f hinv dim x y g hg
+    rw [hd] at hd6; injection hd6 with hd6; subst hd6
+    obtain ⟨_, e2, e3⟩ := p4 j hj
+    obtain ⟨_, e5, e6⟩ := p5 j (by rw [← hn]; exact hj)
+    have hjl : j.length = f.mesh.ndim := by
+      rw [inRange_length _ _ hj, inv_n_length sinv, s1, g1]
+    have hjb : ∀ b, b < f.mesh.ndim → j.getD b 0 < h.mesh.nAt b := fun b hb =>
+      inRange_getD _ _ hj b (by rw [inv_n_length sinv, s1, g1]; exact hb)
+    have hin : inRange g.mesh.n (setAt j a (j.getD a 0 + g.mesh.indexAx a (min x' y'))) = true := by
+      apply inRange_of_getD _ _ (by rw [length_setAt, hjl, inv_n_length ginv, g1])
+      intro b hb
+      rw [inv_n_length ginv, g1] at hb
+      show _ < g.mesh.nAt b
+      by_cases hba : b = a
+      · subst hba
+        rw [getD_setAt_eq _ _ _ _ (by omega)]
+        have := hjb b hb
+        rw [s7] at this
+        have := indexAx_lt g.mesh b (max x' y') (inv_n_pos ginv (by omega))
+        omega
+      · rw [getD_setAt_ne _ _ _ _ _ hba]
+        have := hjb b hb
+        rw [(s9 b (by omega) hba).2.2.1] at this
+        exact this
+    obtain ⟨_, e8, e9⟩ := p6 _ hin
+    have hidx : setAt (setAt j a (j.getD a 0 + g.mesh.indexAx a (min x' y'))) a
+        ((setAt j a (j.getD a 0 + g.mesh.indexAx a (min x' y'))).getD a 0 + f.mesh.indexAx a (min x y))
+        = setAt j a (j.getD a 0 + f.mesh.indexAx a (min x' y')) := by
+      rw [setAt_setAt, getD_setAt_eq _ _ _ _ (by omega), i1]
+      congr 1; omega
+    rw [hidx] at e8 e9
+    rw [e2, e3, e5, e6, e8, e9]
+    exact ⟨rfl, rfl⟩
+
+/-- The pad / crop round trip is always possible: after any accepted `pad` of a well-formed field
+in constructor state, extracting the original region is accepted (for every mode). -/
+theorem pad_crop_accepts (f : Fld) (hf : FldWF f) (hmeta : MetaInv f) (pw : List PadW)
+    (hnd : (pw.map (·.dim)).Nodup) (mode : PadMode) (g : Fld) (hg : padFld f pw mode = .ok g) :
+    ∃ h, getItem g (.region f.mesh.region) = .ok h := by
+  have hgwf := op_wf f hf (.pad pw mode) hnd g hg
+  obtain ⟨_, _, hginv⟩ := op_meta_passthrough f hmeta (.pad pw mode) g hg
+  obtain ⟨p1, p2, _, _⟩ := padFld_inv f hf pw hnd mode g hg
+  have hal := pad_source_aligned f.mesh hf.1 pw (fun b _ => (p2 b).1) (fun b _ => (p2 b).2) g.mesh p1
+  exact (getitem_region_accepts g hgwf (metaInv_ok g hginv).1 f.mesh.region
+    (boxIn_of_aligned g.mesh hgwf.1 _ _ _ hal) hal.2.1).2
+
+/-- One plane selection, everything at once (auxiliary for the commutation law): the result is a
+well-formed field on the mesh with the axis removed (names, units, tolerance, per-axis corners,
+counts and cell sizes of the kept axes), and result cell `j` is source cell `insertAt j α k`,
+an in-range cell of the source. -/
+theorem sel_plane_facts (F : Fld) (hF : FldWF F) (d : String) (α : Nat) (hd : F.mesh.region.dim2index d = .ok α)
+    (ξ : Rat) (G : Fld) (e : selFld F d (.point ξ) = .ok (.field G)) :
+    FldWF G ∧ G.mesh.ndim = F.mesh.ndim - 1 ∧ 2 ≤ F.mesh.ndim ∧
+    G.mesh.region.dims = removeAt F.mesh.region.dims α ∧ G.mesh.region.units = removeAt F.mesh.region.units α ∧
+    G.mesh.region.tol = F.mesh.region.tol ∧
+    (∀ b, b < G.mesh.ndim →
+      G.mesh.region.lo b = F.mesh.region.lo (skip α b) ∧ G.mesh.region.hi b = F.mesh.region.hi (skip α b) ∧
+      G.mesh.nAt b = F.mesh.nAt (skip α b) ∧ G.mesh.cellAt b = F.mesh.cellAt (skip α b)) ∧
+    ∀ j, inRange G.mesh.n j = true →
+      inRange F.mesh.n (insertAt j α (F.mesh.indexAx α ξ)) = true ∧
+      G.data.get j = F.data.get (insertAt j α (F.mesh.indexAx α ξ)) ∧
+      G.valid.get j = F.valid.get (insertAt j α (F.mesh.indexAx α ξ)) := by
+  have hwf := op_wf F hF (.sel d (.point ξ)) trivial G (by simp only [applyOp, e])
+  obtain ⟨gm, _, _, hgm, hgc⟩ := selFld_ctor F d _ G e
+  have egm := (mkFld_inv _ _ _ _ _ hgc).1
+  rw [← egm] at hgm
+  obtain ⟨α', hd', x1, x2, hpt⟩ := sel_plane_pointwise F hF.1 d ξ G e
+  rw [hd] at hd'; injection hd' with hd'; subst hd'
+  have hconv := (selConvert_point F.mesh hF.1 d α hd ξ x1 x2).1
+  obtain ⟨s1, s2, s3, s4, s5, s6, _⟩ := sel_plane_shape F.mesh hF.1 d _ α _ _ hconv G.mesh hgm
+  refine ⟨hwf, s1, s2, s3, s4, s5, s6, ?_⟩
+  intro j hj
+  obtain ⟨p1, p2, p3⟩ := hpt j hj
+  refine ⟨?_, p2, p3⟩
+  obtain ⟨_, _, hi⟩ := point2index_inv F.mesh _ _ p1
+  rw [hi]
+  apply inRange_of_getD _ _ (by rw [tab_length, inv_n_length hF.1])
+  intro b hb
+  rw [inv_n_length hF.1] at hb
+  rw [getD_tab _ _ _ _ hb]
+  exact indexAx_lt F.mesh b _ (inv_n_pos hF.1 hb)
+
+/-- The commutation law for `a < b` (the general case follows by symmetry): after removing axis
+`a` the second axis has position `b - 1`, after removing `b` the first keeps position `a`. -/
+theorem sel_plane_comm_lt (f : Fld) (hf : FldWF f) (da db : String) (a b : Nat) (hab : a < b)
+    (hda : f.mesh.region.dim2index da = .ok a) (hdb : f.mesh.region.dim2index db = .ok b) (x y : Rat)
+    (g1 h1 g2 h2 : Fld)
+    (e1 : selFld f da (.point x) = .ok (.field g1)) (e2 : selFld g1 db (.point y) = .ok (.field h1))
+    (e3 : selFld f db (.point y) = .ok (.field g2)) (e4 : selFld g2 da (.point x) = .ok (.field h2)) :
+    h1.mesh.region = h2.mesh.region ∧ h1.mesh.n = h2.mesh.n ∧
+    ∀ j, inRange h1.mesh.n j = true →
+      h1.data.get j = h2.data.get j ∧ h1.valid.get j = h2.valid.get j := by
+  have hb := dim2index_ndim hf.1 hdb
+  have hdl := inv_dims_length hf.1
+  obtain ⟨w1, n1, _, d1, u1, t1, ax1, pt1⟩ := sel_plane_facts f hf da a hda x g1 e1
+  obtain ⟨w3, n3, _, d3, u3, t3, ax3, pt3⟩ := sel_plane_facts f hf db b hdb y g2 e3
+  have hdb1 : g1.mesh.region.dim2index db = .ok (b - 1) := by
+    have := dim2index_removeAt f.mesh.region g1.mesh.region db a b hdb (by omega) (by omega) d1
+    rwa [if_neg (by omega)] at this
+  have hda2 : g2.mesh.region.dim2index da = .ok a := by
+    have := dim2index_removeAt f.mesh.region g2.mesh.region da b a hda (by omega) (by omega) d3
+    rwa [if_pos hab] at this
+  obtain ⟨w2, n2, h3dim, d2, u2, t2, ax2, pt2⟩ := sel_plane_facts g1 w1 db (b - 1) hdb1 y h1 e2
+  obtain ⟨w4, n4, _, d4, u4, t4, ax4, pt4⟩ := sel_plane_facts g2 w3 da a hda2 x h2 e4
+  have hs1 : skip a (b - 1) = b := by unfold skip; split <;> omega
+  have hs2 : skip b a = a := by unfold skip; split <;> omega
+  -- the two layers have the same index whether looked up before or after the other selection
+  have k1 : g1.mesh.indexAx (b - 1) y = f.mesh.indexAx b y := by
+    obtain ⟨q1, _, q3, q4⟩ := ax1 (b - 1) (by omega)
+    rw [hs1] at q1 q3 q4
+    exact indexAx_congr _ _ _ _ q1 q3 q4 y
+  have k2 : g2.mesh.indexAx a x = f.mesh.indexAx a x := by
+    obtain ⟨q1, _, q3, q4⟩ := ax3 a (by omega)
+    rw [hs2] at q1 q3 q4
+    exact indexAx_congr _ _ _ _ q1 q3 q4 x
+  have hnd : h1.mesh.ndim = h2.mesh.ndim := by omega
+  have hax : ∀ c, c < h2.mesh.ndim →
+      h1.mesh.region.lo c = h2.mesh.region.lo c ∧ h1.mesh.region.hi c = h2.mesh.region.hi c ∧
+      h1.mesh.nAt c = h2.mesh.nAt c := by
+    intro c hc
+    obtain ⟨q1, q2, q3, _⟩ := ax2 c (by omega)
+    obtain ⟨r1, r2, r3, _⟩ := ax1 (skip (b - 1) c) (skip_lt _ _ _ (by omega) (by omega))
+    obtain ⟨q1', q2', q3', _⟩ := ax4 c hc
+    obtain ⟨r1', r2', r3', _⟩ := ax3 (skip a c) (skip_lt _ _ _ (by omega) (by omega))
+    rw [skip_skip a b c hab] at r1 r2 r3
+    exact ⟨by rw [q1, r1, q1', r1'], by rw [q2, r2, q2', r2'], by rw [q3, r3, q3', r3']⟩
+  have hn : h1.mesh.n = h2.mesh.n := by
+    apply list_ext_getD _ _ 0 (by rw [inv_n_length w2.1, inv_n_length w4.1, hnd])
+    intro c hc
+    exact (hax c (by rw [inv_n_length w2.1, hnd] at hc; exact hc)).2.2
+  refine ⟨?_, hn, ?_⟩
+  · apply region_ext _ _ hnd (inv_pmax_length w4.1) (by rw [inv_pmax_length w2.1]; exact hnd)
+      (fun c hc => (hax c hc).1) (fun c hc => (hax c hc).2.1)
+    · rw [d2, d1, d4, d3]; exact removeAt_comm _ a b "" hab (by omega)
+    · rw [u2, u1, u4, u3]
+      exact removeAt_comm _ a b "" hab (by rw [inv_units_length hf.1]; exact hb)
+    · rw [t2, t1, t4, t3]
+  · intro j hj
+    have hjl : j.length = f.mesh.ndim - 2 := by
+      rw [inRange_length _ _ hj, inv_n_length w2.1]; omega
+    obtain ⟨i2, v2, m2⟩ := pt2 j hj
+    obtain ⟨_, v1, m1⟩ := pt1 _ i2
+    obtain ⟨i4, v4, m4⟩ := pt4 j (by rw [← hn]; exact hj)
+    obtain ⟨_, v3, m3⟩ := pt3 _ i4
+    have hcomm := insertAt_comm j a (b - 1) (f.mesh.indexAx a x) (f.mesh.indexAx b y) (by omega) (by omega)
+    have hb1 : b - 1 + 1 = b := by omega
+    rw [hb1] at hcomm
+    rw [v2, v1, m2, m1, v4, v3, m4, m3, k1, k2, hcomm]
+    exact ⟨rfl, rfl⟩
+
+/-- Plane selections along different axes commute: selecting the plane `da = x` and then
+`db = y` gives the same field as `db = y` first and `da = x` second — same region (corners,
+names, units, tolerance), same cell counts, every cell the same value and validity. -/
+theorem sel_plane_comm (f : Fld) (hf : FldWF f) (da db : String) (a b : Nat) (hab : a ≠ b)
+    (hda : f.mesh.region.dim2index da = .ok a) (hdb : f.mesh.region.dim2index db = .ok b) (x y : Rat)
+    (g1 h1 g2 h2 : Fld)
+    (e1 : selFld f da (.point x) = .ok (.field g1)) (e2 : selFld g1 db (.point y) = .ok (.field h1))
+    (e3 : selFld f db (.point y) = .ok (.field g2)) (e4 : selFld g2 da (.point x) = .ok (.field h2)) :
+    h1.mesh.region = h2.mesh.region ∧ h1.mesh.n = h2.mesh.n ∧
+    ∀ j, inRange h1.mesh.n j = true →
+      h1.data.get j = h2.data.get j ∧ h1.valid.get j = h2.valid.get j := by
+  rcases Nat.lt_or_gt_of_ne hab with hlt | hgt
+  · exact sel_plane_comm_lt f hf da db a b hlt hda hdb x y g1 h1 g2 h2 e1 e2 e3 e4
+  · obtain ⟨r1, r2, r3⟩ := sel_plane_comm_lt f hf db da b a hgt hdb hda y x g2 h2 g1 h1 e3 e4 e1 e2
+    refine ⟨r1.symm, r2.symm, ?_⟩
+    intro j hj
+    obtain ⟨q1, q2⟩ := r3 j (by rw [r2]; exact hj)
+    exact ⟨q1.symm, q2.symm⟩
+
+/-- Selecting the whole extent of an axis as a range is the identity on geometry and content:
+`field.sel(d=(pmin_d, pmax_d))` has the same region and cell counts, and every cell keeps its value
+and validity.  (The boundary condition is dropped by `Mesh.sel`.) -/
+theorem sel_range_whole_id (f : Fld) (hf : FldWF f) (dim : String) (a : Nat)
+    (hd : f.mesh.region.dim2index dim = .ok a) (g : Fld)
+    (h : selFld f dim (.range (f.mesh.region.lo a) (f.mesh.region.hi a)) = .ok (.field g)) :
+    g.mesh.region = f.mesh.region ∧ g.mesh.n = f.mesh.n ∧
+    ∀ j, inRange f.mesh.n j = true → g.data.get j = f.data.get j ∧ g.valid.get j = f.valid.get j := by
+  obtain ⟨hinv, hds, hvs⟩ := hf
+  have ha := dim2index_ndim hinv hd
+  have hlt := inv_lo_lt_hi hinv ha
+  have hc := inv_cell_pos hinv ha
+  have hn := inv_n_pos hinv ha
+  have hmin : min (f.mesh.region.lo a) (f.mesh.region.hi a) = f.mesh.region.lo a := min_eq_left hlt.le
+  have hmax : max (f.mesh.region.lo a) (f.mesh.region.hi a) = f.mesh.region.hi a := max_eq_right hlt.le
+  have k1 : f.mesh.indexAx a (f.mesh.region.lo a) = 0 :=
+    indexAx_eq_of_bounds f.mesh a _ 0 hn hc (by simp) (by push_cast; linarith)
+  have k2 : f.mesh.indexAx a (f.mesh.region.hi a) = f.mesh.nAt a - 1 := indexAx_hi f.mesh a hn hc
+  obtain ⟨gm, _, _, hgm, hgc⟩ := selFld_ctor f dim _ g h
+  have egm := (mkFld_inv _ _ _ _ _ hgc).1
+  rw [← egm] at hgm
+  obtain ⟨a', hd', _, _, s1, s2, s3, s4, s5, s6, s7, s8, s9, sinv⟩ :=
+    sel_range_shape f.mesh hinv dim _ _ g.mesh hgm
+  rw [hd] at hd'; injection hd' with hd'; subst hd'
+  rw [hmin, k1] at s5 s7
+  rw [hmax, k2] at s6 s7
+  have hcast : ((f.mesh.nAt a - 1 : Nat) : Rat) = (f.mesh.nAt a : Rat) - 1 := by
+    push_cast [Nat.cast_sub (by omega : 1 ≤ f.mesh.nAt a)]; ring
+  have hax : ∀ b, b < f.mesh.ndim →
+      g.mesh.region.lo b = f.mesh.region.lo b ∧ g.mesh.region.hi b = f.mesh.region.hi b ∧
+      g.mesh.nAt b = f.mesh.nAt b := by
+    intro b hb
+    by_cases hba : b = a
+    · subst hba
+      refine ⟨by rw [s5]; simp, ?_, by rw [s7]; omega⟩
+      rw [s6, hcast, hi_eq f.mesh b hn]; ring
+    · obtain ⟨u1, u2, u3, _⟩ := s9 b hb hba
+      exact ⟨u1, u2, u3⟩
+  have hgn : g.mesh.n = f.mesh.n := by
+    apply list_ext_getD _ _ 0 (by rw [inv_n_length sinv, inv_n_length hinv, s1])
+    intro b hb
+    exact (hax b (by rw [inv_n_length sinv, s1] at hb; exact hb)).2.2
+  refine ⟨?_, hgn, ?_⟩
+  · exact region_ext _ _ s1 (inv_pmax_length hinv) (by rw [inv_pmax_length sinv]; exact s1)
+      (fun b hb => (hax b hb).1) (fun b hb => (hax b hb).2.1) s2 s3 s4
+  · intro j hj
+    obtain ⟨a', hd', hpt⟩ := sel_range_pointwise f hinv dim _ _ g h
+    rw [hd] at hd'; injection hd' with hd'; subst hd'
+    obtain ⟨_, p2, p3⟩ := hpt j (by rw [hgn]; exact hj)
+    rw [hmin, k1] at p2 p3
+    have hjl : j.length = f.mesh.ndim := by rw [inRange_length _ _ hj, inv_n_length hinv]
+    have hidx : setAt j a (j.getD a 0 + 0) = j := by
+      apply list_ext_getD _ _ 0 (length_setAt _ _ _)
+      intro b hb
+      by_cases hba : b = a
+      · subst hba
+        rw [getD_setAt_eq _ _ _ _ (by omega)]; simp
+      · rw [getD_setAt_ne _ _ _ _ _ hba]
+    rw [hidx] at p2 p3
+    exact ⟨p2, p3⟩
+
+/-- Padding by nothing (an empty dictionary, or zero widths on every named axis) is the identity
+on geometry and content, in every mode: same region, same cell counts, every cell keeps value and
+validity. -/
+theorem pad_zero_id (f : Fld) (hf : FldWF f) (pw : List PadW) (hnd : (pw.map (·.dim)).Nodup)
+    (hz : ∀ b, sumW f.mesh (·.lo) pw b = 0 ∧ sumW f.mesh (·.hi) pw b = 0)
+    (mode : PadMode) (g : Fld) (h : padFld f pw mode = .ok g) :
+    g.mesh.region = f.mesh.region ∧ g.mesh.n = f.mesh.n ∧
+    ∀ j, inRange f.mesh.n j = true → g.data.get j = f.data.get j ∧ g.valid.get j = f.valid.get j := by
+  obtain ⟨p1, p2, _, _⟩ := padFld_inv f hf pw hnd mode g h
+  obtain ⟨e1, e2, e3, e4, e5, _, e7, e8⟩ :=
+    padMesh_inv f.mesh hf.1 pw (fun b _ => (p2 b).1) (fun b _ => (p2 b).2) g.mesh p1
+  have hax : ∀ b, b < f.mesh.ndim →
+      g.mesh.region.lo b = f.mesh.region.lo b ∧ g.mesh.region.hi b = f.mesh.region.hi b ∧
+      g.mesh.nAt b = f.mesh.nAt b := by
+    intro b hb
+    obtain ⟨h1, h2, h3, _⟩ := e8 b hb
+    rw [(hz b).1] at h1 h2
+    rw [(hz b).2] at h1 h3
+    exact ⟨by rw [h2]; simp, by rw [h3]; simp, by rw [h1]; simp⟩
+  have hgn : g.mesh.n = f.mesh.n := by
+    apply list_ext_getD _ _ 0 (by rw [e2, inv_n_length hf.1])
+    intro b hb
+    exact (hax b (by rw [e2] at hb; exact hb)).2.2
+  refine ⟨?_, hgn, ?_⟩
+  · exact region_ext _ _ e1 (inv_pmax_length hf.1) e7 (fun b hb => (hax b hb).1)
+      (fun b hb => (hax b hb).2.1) e3 e4 e5
+  · intro j hj
+    have hjl : j.length = f.mesh.ndim := by rw [inRange_length _ _ hj, inv_n_length hf.1]
+    obtain ⟨_, r2, r3⟩ := pad_inside_pointwise f hf pw hnd mode g h j (by
+      intro b hb
+      rw [(hz b).1]
+      have := inRange_getD _ _ hj b (by rw [inv_n_length hf.1]; exact hb)
+      simp only [Int.toNat_zero, Nat.zero_le, Nat.zero_add, true_and]
+      exact this)
+    have hidx : (tab f.mesh.ndim fun b => j.getD b 0 - (sumW f.mesh (·.lo) pw b).toNat) = j := by
+      symm
+      apply eq_tab_of_getD _ _ _ 0 hjl
+      intro b _
+      rw [(hz b).1]; simp
+    rw [hidx] at r2 r3
+    exact ⟨r2, r3⟩
+
+/-- Extracting a region and then a sub-region equals extracting the sub-region directly:
+`field[r1][r2]` and `field[r2]` have the same region (corners, names, units, tolerance), the same
+cell counts, and the same value and validity in every cell — for every box `r2` inside the block
+returned for `r1` (no exception at the faces: lower bounds use `floor`, upper bounds `ceil - 1`,
+and both shift with the block's offset). -/
+theorem getitem_getitem (f : Fld) (hf : FldWF f) (r1 r2 : Region) (hb1 : BoxIn f.mesh r1)
+    (g h h' : Fld) (hg : getItem f (.region r1) = .ok g) (hb2 : BoxIn g.mesh r2)
+    (hh : getItem g (.region r2) = .ok h) (hh' : getItem f (.region r2) = .ok h') :
+    h.mesh.region = h'.mesh.region ∧ h.mesh.n = h'.mesh.n ∧
+    ∀ j, inRange h.mesh.n j = true →
+      h.data.get j = h'.data.get j ∧ h.valid.get j = h'.valid.get j := by
+  obtain ⟨hgm, hgpt⟩ := getitem_region_pointwise f hf r1 hb1 g hg
+  obtain ⟨e1, e2, e3, e4, e5, e6, _, _, e9⟩ := getRegion_inv f.mesh hf.1 r1 hb1 g.mesh hgm
+  have gwf : FldWF g := op_wf f hf (.get (.region r1)) hb1 g hg
+  have blk : ∀ b, b < f.mesh.ndim → AxisBlock g.mesh f.mesh b b (blockLo f.mesh r1 b)
+      (blockHi f.mesh r1 b - blockLo f.mesh r1 b + 1) := fun b hb => (e9 b hb).2.2.2
+  -- r2 is inside f's region as well
+  have hb2' : BoxIn f.mesh r2 := by
+    refine ⟨by rw [hb2.1, e1], ?_⟩
+    intro b hb
+    obtain ⟨c1, c2, c3⟩ := hb2.2 b (by rw [e1]; exact hb)
+    have bb := blk b hb
+    have hc := inv_cell_pos hf.1 hb
+    have hhi := block_hi bb (by omega)
+    have h0 : (0 : Rat) ≤ (blockLo f.mesh r1 b : Rat) := by exact_mod_cast Nat.zero_le _
+    have hfit : ((blockLo f.mesh r1 b : Rat) + ((blockHi f.mesh r1 b - blockLo f.mesh r1 b + 1 : Nat) : Rat))
+        ≤ (f.mesh.nAt b : Rat) := by exact_mod_cast bb.fits
+    refine ⟨?_, c2, ?_⟩
+    · rw [bb.lo] at c1; nlinarith
+    · rw [hhi] at c3
+      rw [hi_eq f.mesh b (inv_n_pos hf.1 hb)]
+      nlinarith
+  obtain ⟨hhm, hhpt⟩ := getitem_region_pointwise g gwf r2 hb2 h hh
+  obtain ⟨hhm', hhpt'⟩ := getitem_region_pointwise f hf r2 hb2' h' hh'
+  obtain ⟨a1, a2, a3, a4, a5, a6, _, _, a9⟩ := getRegion_inv g.mesh gwf.1 r2 hb2 h.mesh hhm
+  obtain ⟨b1, b2, b3, b4, b5, b6, _, _, b9⟩ := getRegion_inv f.mesh hf.1 r2 hb2' h'.mesh hhm'
+  -- the two covering blocks have the same cells
+  have hlo : ∀ b, b < f.mesh.ndim → blockLo f.mesh r2 b = blockLo f.mesh r1 b + blockLo g.mesh r2 b := by
+    intro b hb
+    obtain ⟨c1, c2, c3⟩ := hb2.2 b (by rw [e1]; exact hb)
+    exact indexAx_block (blk b hb) (by omega) (inv_cell_pos hf.1 hb) _ c1 (by linarith)
+      (Or.inl (lt_of_lt_of_le c2 c3))
+  have hhi : ∀ b, b < f.mesh.ndim → blockHi f.mesh r2 b = blockLo f.mesh r1 b + blockHi g.mesh r2 b := by
+    intro b hb
+    have u := upperIdx_block (blk b hb) (inv_cell_pos hf.1 hb) (r2.hi b)
+    rw [(b9 b hb).2.2.1, (a9 b (by rw [e1]; exact hb)).2.2.1] at u
+    exact_mod_cast u
+  have hnd : h.mesh.ndim = h'.mesh.ndim := by rw [a1, b1, e1]
+  have hax : ∀ b, b < h'.mesh.ndim →
+      h.mesh.region.lo b = h'.mesh.region.lo b ∧ h.mesh.region.hi b = h'.mesh.region.hi b ∧
+      h.mesh.nAt b = h'.mesh.nAt b := by
+    intro b hb
+    rw [b1] at hb
+    obtain ⟨l1, _, _, ab⟩ := a9 b (by rw [e1]; exact hb)
+    obtain ⟨l2, _, _, bb⟩ := b9 b hb
+    have gb := blk b hb
+    have hcnt : blockHi g.mesh r2 b - blockLo g.mesh r2 b + 1 = blockHi f.mesh r2 b - blockLo f.mesh r2 b + 1 := by
+      rw [hlo b hb, hhi b hb]; omega
+    refine ⟨?_, ?_, ?_⟩
+    · rw [ab.lo, bb.lo, gb.lo, gb.cell, hlo b hb]; push_cast; ring
+    · rw [block_hi ab (by omega), block_hi bb (by omega), gb.lo, gb.cell, hcnt, hlo b hb]; push_cast; ring
+    · rw [ab.n, bb.n, hcnt]
+  have hn : h.mesh.n = h'.mesh.n := by
+    apply list_ext_getD _ _ 0 (by rw [a2, b2, e1])
+    intro b hb
+    exact (hax b (by rw [a2, e1, ← b1] at hb; exact hb)).2.2
+  refine ⟨?_, hn, ?_⟩
+  · exact region_ext _ _ hnd (by rw [b6]; exact b1.symm) (by rw [a6, e1]; exact b1.symm)
+      (fun b hb => (hax b hb).1) (fun b hb => (hax b hb).2.1)
+      (by rw [a3, b3, e3]) (by rw [a4, b4, e4]) (by rw [a5, b5, e5])
+  · intro j hj
+    obtain ⟨_, p2, p3⟩ := hhpt j hj
+    obtain ⟨_, q2, q3⟩ := hhpt' j (by rw [← hn]; exact hj)
+    have hin : inRange g.mesh.n (tab g.mesh.ndim fun b => blockLo g.mesh r2 b + j.getD b 0) = true := by
+      apply inRange_of_getD _ _ (by rw [tab_length, e2, e1])
+      intro b hb
+      rw [e2] at hb
+      rw [getD_tab _ _ _ _ (by rw [e1]; exact hb)]
+      have ab := (a9 b (by rw [e1]; exact hb)).2.2.2
+      have hjb : j.getD b 0 < h.mesh.nAt b := inRange_getD _ _ hj b (by rw [a2, e1]; exact hb)
+      rw [ab.n] at hjb
+      have := ab.fits
+      show _ < g.mesh.nAt b
+      omega
+    obtain ⟨_, r2', r3'⟩ := hgpt _ hin
+    have hidx : (tab f.mesh.ndim fun b => blockLo f.mesh r1 b +
+        (tab g.mesh.ndim fun b => blockLo g.mesh r2 b + j.getD b 0).getD b 0)
+        = tab f.mesh.ndim fun b => blockLo f.mesh r2 b + j.getD b 0 := by
+      apply tab_congr
+      intro b hb
+      rw [getD_tab _ _ _ _ (by rw [e1]; exact hb), hlo b hb]; omega
+    rw [hidx] at r2' r3'
+    rw [p2, p3, q2, q3, r2', r3']
+    exact ⟨rfl, rfl⟩
+
+/-! ## Further refusals; plane selection of a 1-d field -/
+
+/-- Malformed padding requests are refused: an axis name the region does not have is refused by
+`Mesh.pad` and `Field.pad`; a negative width is refused by `Field.pad` (numpy refuses it), in
+every mode. -/
+theorem pad_rejects (f : Fld) (pw : List PadW) (mode : PadMode) :
+    ((∃ w, w ∈ pw ∧ ∀ a, f.mesh.region.dim2index w.dim ≠ .ok a) →
+      (∃ e, padMesh f.mesh pw = .error e) ∧ ∃ e, padFld f pw mode = .error e) ∧
+    ((∃ w, w ∈ pw ∧ (w.lo < 0 ∨ w.hi < 0)) → ∃ e, padFld f pw mode = .error e) := by
+  constructor
+  · intro hbad
+    constructor
+    · obtain ⟨e, he⟩ := padCorners_unknown f.mesh pw f.mesh.region.pmin f.mesh.region.pmax hbad
+      exact ⟨e, by unfold padMesh; rw [he]⟩
+    · obtain ⟨e, he⟩ := padAxes_unknown f.mesh pw hbad
+      exact ⟨e, by unfold padFld; rw [he]⟩
+  · rintro ⟨w, hw, hneg⟩
+    unfold padFld
+    cases hd : padAxes f.mesh pw with
+    | error e => exact ⟨e, rfl⟩
+    | ok d =>
+      simp only
+      obtain ⟨a, ha⟩ := padAxes_mem f.mesh pw d hd w hw
+      have : (d.any fun e => decide (e.2.1 < 0) || decide (e.2.2 < 0)) = true := by
+        rw [List.any_eq_true]
+        refine ⟨_, ha, ?_⟩
+        rcases hneg with h | h <;> simp [h]
+      rw [if_pos this]
+      exact ⟨_, rfl⟩
+
+/-- A box of the wrong dimension, or one that sticks out of the region on some axis by more than
+the region's comparison tolerance (`atol + rtol·|x|` of `Region.__contains__`), is refused by
+`mesh[region]` and `field[region]`; `region2slices` refuses a box of the wrong dimension. -/
+theorem getitem_region_rejected (f : Fld) (item : Region)
+    (hbad : item.ndim ≠ f.mesh.ndim ∨
+      (∃ a, a < f.mesh.ndim ∧ item.lo a < f.mesh.region.lo a ∧
+        f.mesh.region.atol + f.mesh.region.tol * absR (item.lo a) < f.mesh.region.lo a - item.lo a) ∨
+      (∃ a, a < f.mesh.ndim ∧ f.mesh.region.hi a < item.hi a ∧
+        f.mesh.region.atol + f.mesh.region.tol * absR (item.hi a) < item.hi a - f.mesh.region.hi a)) :
+    (∃ e, getMesh f.mesh (.region item) = .error e) ∧ (∃ e, getItem f (.region item) = .error e) ∧
+    (item.ndim ≠ f.mesh.ndim → ∃ e, region2slices f.mesh item = .error e) := by
+  have hc : f.mesh.region.containsReg item = false := by
+    unfold Region.containsReg
+    rcases hbad with h | ⟨a, ha, h1, h2⟩ | ⟨a, ha, h1, h2⟩
+    · have : f.mesh.region.containsPt item.pmin = false := by
+        unfold Region.containsPt
+        have : decide (item.pmin.length = f.mesh.region.ndim) = false := by
+          rw [decide_eq_false_iff_not]; exact h
+        rw [this]; rfl
+      rw [this]; rfl
+    · have : f.mesh.region.containsPt item.pmin = false := by
+        unfold Region.containsPt
+        have hax : f.mesh.region.containsAx a (item.pmin.getD a 0) = false := by
+          unfold Region.containsAx Region.isclose
+          have e1 : decide (f.mesh.region.lo a ≤ item.pmin.getD a 0) = false := by
+            rw [decide_eq_false_iff_not]; exact not_le.mpr h1
+          have e2 : decide (absR (f.mesh.region.lo a - item.pmin.getD a 0)
+              ≤ f.mesh.region.atol + f.mesh.region.tol * absR (item.pmin.getD a 0)) = false := by
+            rw [decide_eq_false_iff_not, absR_eq_abs, abs_of_pos (by
+              show 0 < f.mesh.region.lo a - item.lo a; linarith)]
+            exact not_le.mpr h2
+          rw [e1, e2]; rfl
+        rw [allLt_false_of f.mesh.region.ndim (fun a => f.mesh.region.containsAx a (item.pmin.getD a 0)) a ha hax,
+          Bool.and_false]
+      rw [this]; rfl
+    · have : f.mesh.region.containsPt item.pmax = false := by
+        unfold Region.containsPt
+        have hax : f.mesh.region.containsAx a (item.pmax.getD a 0) = false := by
+          unfold Region.containsAx Region.isclose
+          have e1 : decide (item.pmax.getD a 0 ≤ f.mesh.region.hi a) = false := by
+            rw [decide_eq_false_iff_not]; exact not_le.mpr h1
+          have e2 : decide (absR (f.mesh.region.hi a - item.pmax.getD a 0)
+              ≤ f.mesh.region.atol + f.mesh.region.tol * absR (item.pmax.getD a 0)) = false := by
+            rw [decide_eq_false_iff_not, absR_eq_abs, abs_of_neg (by
+              show f.mesh.region.hi a - item.hi a < 0; linarith)]
+            rw [not_le]
+            have : -(f.mesh.region.hi a - item.pmax.getD a 0) = item.hi a - f.mesh.region.hi a := by
+              show _ = item.pmax.getD a 0 - _; ring
+            rw [this]; exact h2
+          rw [e1, e2]; simp
+        rw [allLt_false_of f.mesh.region.ndim (fun a => f.mesh.region.containsAx a (item.pmax.getD a 0)) a ha hax,
+          Bool.and_false]
+      rw [this, Bool.and_false]
+  obtain ⟨r1, r2⟩ := getitem_outside_rejected f (.region item) (Or.inr ⟨item, rfl, hc⟩)
+  refine ⟨r1, r2, ?_⟩
+  intro hnd
+  exact ⟨_, by unfold region2slices; rw [if_pos hnd]⟩
+
+/-- Plane selection on a 1-d field returns the bare value of the cell containing the
+coordinate (there is no 0-dimensional mesh to put a field on). -/
+theorem sel_plane_1d_value (f : Fld) (hf : f.mesh.Inv) (h1 : f.mesh.ndim = 1) (dim : String) (a : Nat)
+    (hd : f.mesh.region.dim2index dim = .ok a) (x : Rat)
+    (hx1 : f.mesh.region.lo a ≤ x) (hx2 : x ≤ f.mesh.region.hi a) :
+    a = 0 ∧ selFld f dim (.point x) = .ok (.values (f.data.get [f.mesh.indexAx 0 x])) := by
+  have ha := dim2index_ndim hf hd
+  have ha0 : a = 0 := by omega
+  subst ha0
+  refine ⟨rfl, ?_⟩
+  have hconv := (selConvert_point f.mesh hf dim 0 hd x hx1 hx2).1
+  have hmesh : ∃ e, selMesh f.mesh dim (.point x) = .error e := by
+    unfold selMesh
+    rw [hconv]
+    show ∃ e, selPlaneMesh f.mesh 0 _ = .error e
+    unfold selPlaneMesh
+    cases planeSubs 0 (f.mesh.centreAx 0 ((f.mesh.indexAx 0 x : Nat) : Int)) f.mesh.subs with
+    | error e => exact ⟨e, rfl⟩
+    | ok subs =>
+      simp only
+      have hl : (removeAt f.mesh.region.pmin 0).length = 0 := by
+        rw [length_removeAt _ _ (by show 0 < f.mesh.ndim; omega)]
+        show f.mesh.ndim - 1 = 0; omega
+      have : ∃ e, Region.mk? (removeAt f.mesh.region.pmin 0) (removeAt f.mesh.region.pmax 0)
+          (some (removeAt f.mesh.region.dims 0)) (some (removeAt f.mesh.region.units 0)) f.mesh.region.tol
+          = .error e := by
+        unfold Region.mk?
+        by_cases hne : (removeAt f.mesh.region.pmin 0).length ≠ (removeAt f.mesh.region.pmax 0).length
+        · rw [if_pos hne]; exact ⟨_, rfl⟩
+        · rw [if_neg hne, if_pos hl]; exact ⟨_, rfl⟩
+      obtain ⟨e, he⟩ := this
+      rw [he]; exact ⟨e, rfl⟩
+  obtain ⟨e, he⟩ := hmesh
+  unfold selFld
+  rw [hconv, he]
+  simp only
+  rw [if_pos h1]
+  rfl
+
+/-- A plane selection of a subregion-free field in constructor state, in closed form: it is
+accepted for every coordinate of the closed edge, the result lives on exactly the mesh with the
+axis removed (`planeOf`), and is again a well-formed field in constructor state — so plane
+selections can be iterated. -/
+theorem sel_plane_result (f : Fld) (hf : FldWF f) (hmi : MetaInv f) (hs : f.mesh.subs = []) (h2 : 2 ≤ f.mesh.ndim)
+    (dim : String) (a : Nat) (hd : f.mesh.region.dim2index dim = .ok a) (x : Rat)
+    (h1 : f.mesh.region.lo a ≤ x) (hx2 : x ≤ f.mesh.region.hi a) :
+    ∃ g, selFld f dim (.point x) = .ok (.field g) ∧ g.mesh = planeOf f.mesh a ∧ FldWF g ∧ MetaInv g := by
+  obtain ⟨hm, g, hg⟩ := sel_plane_accepts f hf (metaInv_ok f hmi).1 hs h2 dim a hd x h1 hx2
+  have happ : applyOp f (.sel dim (.point x)) = .ok g := by simp only [applyOp, hg]
+  obtain ⟨hmesh, _⟩ := op_meta f _ g happ
+  have hmesh' : selMesh f.mesh dim (.point x) = .ok g.mesh := hmesh
+  rw [hm] at hmesh'
+  injection hmesh' with hmesh'
+  exact ⟨g, hg, hmesh'.symm, op_wf f hf (.sel dim (.point x)) trivial g happ,
+    (op_meta_passthrough f hmi _ g happ).2.2⟩
+
 /-! ## Non-vacuity: every hypothesis used above is met by a concrete field
 
 `Ex.f0`: 4 × 2 cells of size 1 × 1 over `[0,4] × [0,2]`, tokens `10·i + j`, a chequered mask;
@@ -1235,6 +2468,208 @@ example : ∃ g, resample f0 (f0.mesh.n.map Int.ofNat) = .ok g :=
 /-- hypothesis of `resample_rejects` -/
 example : ∃ e, resample f0 [2, 0] = .error e :=
   resample_rejects f0 [2, 0] (Or.inr ⟨0, by decide, by decide⟩)
+
+/-! ### second part: metadata, subregions, composition laws, further refusals -/
+
+/-- hypotheses of `op_meta`, `op_labels_rule`, `op_meta_passthrough`, `op_wf`, `op_subs_bc`: `f0` is
+in constructor state and e.g. `resample` applies to it -/
+example : MetaInv f0 ∧ OpSide f0 (.resample [2, 3]) ∧ ∃ g, applyOp f0 (.resample [2, 3]) = .ok g :=
+  ⟨rfl, trivial, resample_accepts f0 f0_wf.1 rfl [2, 3] rfl (by decide)⟩
+
+/-- hypotheses of `history_meta`, `history_meta_first`: a two-step history on `f0` -/
+example : ∃ g, runOps f0 [.resample [2, 3], .resample [4, 2]] = .ok g := by
+  obtain ⟨g1, hg1⟩ := resample_accepts f0 f0_wf.1 rfl [2, 3] rfl (by decide)
+  have hwf := op_wf f0 f0_wf (.resample [2, 3]) trivial g1 hg1
+  obtain ⟨_, _, hmi⟩ := op_meta_passthrough f0 rfl (.resample [2, 3]) g1 hg1
+  obtain ⟨r1, _, _, _⟩ := resample_region f0 _ g1 hg1
+  obtain ⟨g2, hg2⟩ := resample_accepts g1 hwf.1 (metaInv_ok g1 hmi).1 [4, 2]
+    (by show 2 = g1.mesh.region.ndim; rw [r1]; rfl) (by decide)
+  refine ⟨g2, ?_⟩
+  rw [runOps_cons_ok f0 g1 (.resample [2, 3]) _ hg1, runOps_cons_ok g1 g2 (.resample [4, 2]) _ hg2]
+  rfl
+
+/-- the default-label rule of `op_labels_rule` is not vacuous: three components without labels
+get `x y z` -/
+example : ctorMeta { f0 with nvdim := 3 } = .ok (some ["x", "y", "z"], []) := rfl
+
+/-- hypothesis of `op_rejects_bad_meta`: the state left by `field.vdims = []` on a labelled vector
+field — no labels, mapping keyed by the old labels — is refused by the setters … -/
+example : metaOk fstale = false := rfl
+
+/-- … while the scalar variant has its one-entry mapping silently dropped -/
+example : ctorMeta { f0 with vmap := [("s", "x")] } = .ok (none, []) := rfl
+
+/-- hypotheses of `sel_plane_accepts_subs`, `sel_range_accepts_subs`, and through them of
+`sel_plane_subs` / `sel_range_subs`: the mesh `m1` with its subregion of whole cells -/
+example : SubsWF m1 ∧ (∃ g, selMesh m1 "x" (.point (3/2)) = .ok g) ∧
+    (∃ g, selMesh m1 "x" (.range (1/2) (3/2)) = .ok g) ∧
+    ∃ g, selFld f1 "x" (.range (1/2) (3/2)) = .ok (.field g) := by
+  refine ⟨?_, ?_, ?_, ?_⟩
+  · intro p hp
+    obtain ⟨k1, k2, hal⟩ := m1_subs_aligned p hp
+    obtain ⟨a1, a2, a3⟩ := aligned_wf m1 m1_inv p.2 k1 k2 hal
+    exact ⟨a1, a2, fun b hb => (a3 b hb).le⟩
+  · exact (sel_plane_accepts_subs f1 f1_wf rfl m1_subs_aligned (by decide) "x" 0 (by decide) (3/2)
+      (by norm_num [f1, f0, m1, m0, reg, Region.lo]) (by norm_num [f1, f0, m1, m0, reg, Region.hi])).1
+  · exact (sel_range_accepts_subs f1 f1_wf rfl m1_subs_aligned "x" 0 (by decide) (1/2) (3/2)
+      (by norm_num [f1, f0, m1, m0, reg, Region.lo]) (by norm_num [f1, f0, m1, m0, reg, Region.hi])).1
+  · exact (sel_range_accepts_subs f1 f1_wf rfl m1_subs_aligned "x" 0 (by decide) (1/2) (3/2)
+      (by norm_num [f1, f0, m1, m0, reg, Region.lo]) (by norm_num [f1, f0, m1, m0, reg, Region.hi])).2
+
+/-- hypotheses of `getitem_aligned_pointwise`: the aligned box `s0` of `f1` -/
+example : SubAligned f1.mesh s0 k1 k2 ∧ ∃ g, getItem f1 (.region s0) = .ok g :=
+  ⟨s0_aligned, (getitem_region_accepts f1 f1_wf rfl s0 (boxIn_of_aligned m1 m1_inv s0 k1 k2 s0_aligned) rfl).2⟩
+
+/-- hypothesis of `getitem_whole_id` -/
+example : ∃ g, getItem f0 (.region f0.mesh.region) = .ok g :=
+  (getitem_region_accepts f0 f0_wf rfl _ (boxIn_of_aligned m0 m0_inv _ _ _ (whole_aligned m0 m0_inv)) rfl).2
+
+/-- hypotheses of `pad_crop_roundtrip` / `pad_crop_accepts`, in every mode -/
+example (mode : PadMode) : ∃ g h, padFld f0 pw0 mode = .ok g ∧ getItem g (.region f0.mesh.region) = .ok h := by
+  obtain ⟨g, hg⟩ := (pad_accepts f0 f0_wf rfl pw0 (by decide)
+    (by
+      intro w hw
+      simp only [pw0, List.mem_cons, List.mem_nil_iff, or_false] at hw
+      rcases hw with rfl | rfl
+      · exact ⟨0, by decide⟩
+      · exact ⟨1, by decide⟩)
+    (by
+      intro w hw
+      simp only [pw0, List.mem_cons, List.mem_nil_iff, or_false] at hw
+      rcases hw with rfl | rfl <;> decide)
+    (by rw [show f0.mesh.bc = "" from rfl, emptyLower]; exact bcOk_empty _) mode).2
+  obtain ⟨h, hh⟩ := pad_crop_accepts f0 f0_wf rfl pw0 (by decide) mode g hg
+  exact ⟨g, h, hg, hh⟩
+
+
+/-- hypotheses of `resample_refine` (4 × 2 → 8 × 2, factors 2 and 1) and of
+`resample_refine_back_id` (back to 4 × 2) -/
+example : ∃ g k, resample f0 [8, 2] = .ok g ∧
+    (∀ b, b < f0.mesh.ndim → 0 < (fun b => if b = 0 then 2 else 1) b ∧
+      g.mesh.nAt b = (fun b => if b = 0 then 2 else 1) b * f0.mesh.nAt b) ∧
+    resample g (f0.mesh.n.map Int.ofNat) = .ok k := by
+  obtain ⟨g, hg⟩ := resample_accepts f0 f0_wf.1 rfl [8, 2] rfl (by decide)
+  have hwf := op_wf f0 f0_wf (.resample [8, 2]) trivial g hg
+  obtain ⟨_, _, hmi⟩ := op_meta_passthrough f0 rfl (.resample [8, 2]) g hg
+  obtain ⟨r1, r2, _, _⟩ := resample_region f0 _ g hg
+  obtain ⟨k, hk⟩ := resample_accepts g hwf.1 (metaInv_ok g hmi).1 (f0.mesh.n.map Int.ofNat)
+    (by show 2 = g.mesh.region.ndim; rw [r1]; rfl) (by decide)
+  refine ⟨g, k, hg, ?_, hk⟩
+  intro b hb
+  rcases lt_two b hb with rfl | rfl
+  · exact ⟨by decide, by rw [nAt_def, r2]; rfl⟩
+  · exact ⟨by decide, by rw [nAt_def, r2]; rfl⟩
+
+/-- hypotheses of `resample_coarsen` (4 × 2 → 2 × 1, factors 2 and 2) -/
+example : ∃ g, resample f0 [2, 1] = .ok g ∧
+    ∀ b, b < f0.mesh.ndim → f0.mesh.nAt b = (fun _ => 2) b * g.mesh.nAt b := by
+  obtain ⟨g, hg⟩ := resample_accepts f0 f0_wf.1 rfl [2, 1] rfl (by decide)
+  obtain ⟨_, r2, _, _⟩ := resample_region f0 _ g hg
+  refine ⟨g, hg, ?_⟩
+  intro b hb
+  rcases lt_two b hb with rfl | rfl
+  · rw [nAt_def g.mesh, r2]; rfl
+  · rw [nAt_def g.mesh, r2]; rfl
+
+/-- hypotheses of `pad_rejects`: an axis name the region does not have; a negative width -/
+example : (∃ w, w ∈ [(⟨"q", 1, 1⟩ : PadW)] ∧ ∀ a, f0.mesh.region.dim2index w.dim ≠ .ok a) ∧
+    (∃ w, w ∈ [(⟨"x", -1, 1⟩ : PadW)] ∧ (w.lo < 0 ∨ w.hi < 0)) :=
+  ⟨⟨⟨"q", 1, 1⟩, List.mem_cons_self .., fun a h => by
+      have : f0.mesh.region.dim2index "q" = .error .value := by decide
+      rw [this] at h; cases h⟩,
+   ⟨⟨"x", -1, 1⟩, List.mem_cons_self .., Or.inl (by decide)⟩⟩
+
+/-- hypothesis of `getitem_region_rejected`: a 1-d box asked of a 2-d mesh -/
+example : (reg1 [1] [2]).ndim ≠ f0.mesh.ndim := by decide
+
+/-- hypotheses of `sel_plane_1d_value`: the 1-d field `f2` -/
+example : f2.mesh.Inv ∧ f2.mesh.ndim = 1 ∧ f2.mesh.region.dim2index "x" = .ok 0 ∧
+    f2.mesh.region.lo 0 ≤ 5/2 ∧ (5/2 : Rat) ≤ f2.mesh.region.hi 0 :=
+  ⟨m2_inv, rfl, by decide, by norm_num [f2, m2, reg1, Region.lo], by norm_num [f2, m2, reg1, Region.hi]⟩
+
+
+/-- hypotheses of `sel_range_range`: cells 1..2 of `f0` along x, then the sub-range
+`[5/4, 7/4]` of that, against the sub-range taken directly -/
+example : ∃ g h h', selFld f0 "x" (.range (3/2) (5/2)) = .ok (.field g) ∧
+    selFld g "x" (.range (5/4) (7/4)) = .ok (.field h) ∧
+    selFld f0 "x" (.range (5/4) (7/4)) = .ok (.field h') ∧
+    f0.mesh.region.dim2index "x" = .ok 0 ∧ max (5/4 : Rat) (7/4) < g.mesh.region.hi 0 := by
+  have hd : f0.mesh.region.dim2index "x" = .ok 0 := by decide
+  obtain ⟨g, hg⟩ := (sel_range_accepts f0 f0_wf rfl rfl "x" 0 hd (3/2) (5/2)
+    (by norm_num [f0, m0, reg, Region.lo]) (by norm_num [f0, m0, reg, Region.hi])).2
+  obtain ⟨h', hh'⟩ := (sel_range_accepts f0 f0_wf rfl rfl "x" 0 hd (5/4) (7/4)
+    (by norm_num [f0, m0, reg, Region.lo]) (by norm_num [f0, m0, reg, Region.hi])).2
+  have happ : applyOp f0 (.sel "x" (.range (3/2) (5/2))) = .ok g := by simp only [applyOp, hg]
+  have hwf := op_wf f0 f0_wf (.sel "x" (.range (3/2) (5/2))) trivial g happ
+  obtain ⟨hmesh, _⟩ := op_meta f0 _ g happ
+  have hmesh' : selMesh f0.mesh "x" (.range (3/2) (5/2)) = .ok g.mesh := hmesh
+  obtain ⟨_, _, hmi⟩ := op_meta_passthrough f0 rfl _ g happ
+  obtain ⟨a, hda, _, _, _, gd, _, _, glo, ghi, _⟩ := sel_range_shape f0.mesh f0_wf.1 "x" _ _ g.mesh hmesh'
+  rw [hd] at hda; injection hda with hda; subst hda
+  have hmin : min (3/2 : Rat) (5/2) = 3/2 := by norm_num
+  have hmax : max (3/2 : Rat) (5/2) = 5/2 := by norm_num
+  rw [hmin, ex_idx (3/2) 1 (by decide) (by norm_num) (by norm_num)] at glo
+  rw [hmax, ex_idx (5/2) 2 (by decide) (by norm_num) (by norm_num)] at ghi
+  have hlo : g.mesh.region.lo 0 = 1 := by
+    rw [glo]; norm_num [f0, m0, reg, Region.lo, Mesh.cellAt, Mesh.nAt, Region.edge, Region.hi]
+  have hhi : g.mesh.region.hi 0 = 3 := by
+    rw [ghi]; norm_num [f0, m0, reg, Region.lo, Mesh.cellAt, Mesh.nAt, Region.edge, Region.hi]
+  have hsubs : g.mesh.subs = [] := selMesh_nosubs f0.mesh rfl _ _ g.mesh hmesh'
+  have hdg : g.mesh.region.dim2index "x" = .ok 0 := by rw [dim2index_congr _ _ gd]; exact hd
+  obtain ⟨h, hh⟩ := (sel_range_accepts g hwf (metaInv_ok g hmi).1 hsubs "x" 0 hdg (5/4) (7/4)
+    (by rw [hlo]; norm_num) (by rw [hhi]; norm_num)).2
+  exact ⟨g, h, h', hg, hh, hh', hd, by rw [hhi]; norm_num⟩
+
+
+/-- hypotheses of `sel_plane_comm` (and `sel_plane_facts`, `sel_plane_comm_lt`): the planes
+`x = 1/2` and `y = 3/2` of the 2 × 2 × 2 field `f3`, in both orders -/
+example : ∃ g1 h1 g2 h2, selFld f3 "x" (.point (1/2)) = .ok (.field g1) ∧
+    selFld g1 "y" (.point (3/2)) = .ok (.field h1) ∧
+    selFld f3 "y" (.point (3/2)) = .ok (.field g2) ∧
+    selFld g2 "x" (.point (1/2)) = .ok (.field h2) ∧
+    f3.mesh.region.dim2index "x" = .ok 0 ∧ f3.mesh.region.dim2index "y" = .ok 1 := by
+  obtain ⟨g1, e1, m1', w1, i1⟩ := sel_plane_result f3 f3_wf rfl rfl (by decide) "x" 0 (by decide) (1/2)
+    (by norm_num [f3, m3, reg3, Region.lo]) (by norm_num [f3, m3, reg3, Region.hi])
+  obtain ⟨g2, e3, m2', w2, i2⟩ := sel_plane_result f3 f3_wf rfl rfl (by decide) "y" 1 (by decide) (3/2)
+    (by norm_num [f3, m3, reg3, Region.lo]) (by norm_num [f3, m3, reg3, Region.hi])
+  obtain ⟨h1, e2, _⟩ := sel_plane_result g1 w1 i1 (by rw [m1']; rfl) (by rw [m1']; decide) "y" 0
+    (by rw [m1']; decide) (3/2)
+    (by rw [m1']; norm_num [planeOf, f3, m3, reg3, Region.lo, removeAt])
+    (by rw [m1']; norm_num [planeOf, f3, m3, reg3, Region.hi, removeAt])
+  obtain ⟨h2, e4, _⟩ := sel_plane_result g2 w2 i2 (by rw [m2']; rfl) (by rw [m2']; decide) "x" 0
+    (by rw [m2']; decide) (1/2)
+    (by rw [m2']; norm_num [planeOf, f3, m3, reg3, Region.lo, removeAt])
+    (by rw [m2']; norm_num [planeOf, f3, m3, reg3, Region.hi, removeAt])
+  exact ⟨g1, h1, g2, h2, e1, e2, e3, e4, by decide, by decide⟩
+
+
+/-- hypothesis of `sel_range_whole_id`: the whole extent of `x` as a range -/
+example : ∃ g, selFld f0 "x" (.range (f0.mesh.region.lo 0) (f0.mesh.region.hi 0)) = .ok (.field g) :=
+  (sel_range_accepts f0 f0_wf rfl rfl "x" 0 (by decide) _ _
+    (by norm_num [f0, m0, reg, Region.lo, Region.hi]) (by norm_num [f0, m0, reg, Region.lo, Region.hi])).2
+
+/-- hypotheses of `pad_zero_id`: the empty dictionary -/
+example (mode : PadMode) : (∀ b, sumW f0.mesh (·.lo) [] b = 0 ∧ sumW f0.mesh (·.hi) [] b = 0) ∧
+    ∃ g, padFld f0 [] mode = .ok g :=
+  ⟨fun _ => ⟨rfl, rfl⟩, (pad_accepts f0 f0_wf rfl [] (by decide) (fun w hw => by cases hw)
+    (fun w hw => by cases hw) (by rw [show f0.mesh.bc = "" from rfl, emptyLower]; exact bcOk_empty _) mode).2⟩
+
+/-- hypotheses of `getitem_getitem`: the box `box` of `f0`, then the same box of the result -/
+example : ∃ g h h', BoxIn f0.mesh box ∧ getItem f0 (.region box) = .ok g ∧ BoxIn g.mesh box ∧
+    getItem g (.region box) = .ok h ∧ getItem f0 (.region box) = .ok h' := by
+  obtain ⟨g, hg⟩ := (getitem_region_accepts f0 f0_wf rfl box box_in rfl).2
+  have gwf := op_wf f0 f0_wf (.get (.region box)) box_in g hg
+  obtain ⟨_, _, hmi⟩ := op_meta_passthrough f0 rfl (.get (.region box)) g hg
+  obtain ⟨hgm, _⟩ := getitem_region_pointwise f0 f0_wf box box_in g hg
+  obtain ⟨e1, _, _, hax⟩ := getRegion_smallest f0.mesh f0_wf.1 box box_in g.mesh hgm
+  have hb2 : BoxIn g.mesh box := by
+    refine ⟨by rw [e1]; exact box_in.1, ?_⟩
+    intro a ha
+    rw [e1] at ha
+    obtain ⟨_, _, _, _, _, _, _, _, q5, q6, _, _⟩ := hax a ha
+    exact ⟨q5, (box_in.2 a ha).2.1, q6⟩
+  obtain ⟨h, hh⟩ := (getitem_region_accepts g gwf (metaInv_ok g hmi).1 box hb2 (by rw [e1]; rfl)).2
+  exact ⟨g, h, g, box_in, hg, hb2, hh, hg⟩
 
 end NonVacuity
 
